@@ -244,4 +244,2098 @@ theorem attempt_fuel_mono (prog : Prog) (inp : Input) {fuel fuel' : Nat} (hf : f
 
 end Pk
 
+/-! ## What one instruction / one `try_backtrack` can do (shared by parts (b) and (c)) -/
+
 end Regress.VM
+
+namespace Regress.VM.Bt
+
+theorem runLoop_spec {st : State} {bts : Array BtInsn} {id min max greedy exit pos ip next st' bts'}
+    (h : runLoop st bts id min max greedy exit pos ip = .ok next st' bts') :
+    (next = none → bts' = bts) ∧ bts'.size ≤ bts.size + 2 := by
+  unfold runLoop at h
+  cases hl : st.loops[id]? with
+  | none => simp [hl] at h
+  | some ld =>
+    simp only [hl] at h
+    split at h
+    · cases h; simp
+    · cases hA : ltMax ld.iters max <;> cases hB : decide (ld.iters ≥ min) <;>
+        simp only [hA, hB] at h
+      · cases h; simp
+      · cases h; simp
+      · simp only [prepareToEnterLoop] at h; cases h; simp
+      · cases greedy
+        · simp only [Bool.not_false, if_true] at h; cases h; simp
+        · simp only [prepareToEnterLoop, Bool.not_true, Bool.false_eq_true, if_false] at h
+          cases h; simp
+
+theorem runScmLoop_size {prog inp fwd} {bts : Array BtInsn} {pos min max ip greedy nip p bts'}
+    (h : runScmLoop prog inp fwd bts pos min max ip greedy = .ok (some (nip, p, bts'))) :
+    nip = ip + 2 ∧ bts'.size ≤ bts.size + 1 := by
+  unfold runScmLoop at h
+  simp only [] at h
+  generalize (if greedy = true then withScmLoopImpl prog inp fwd pos min max ip else _) = mm at h
+  match mm, h with
+  | .error e, h => simp at h
+  | .ok none, h => simp at h
+  | .ok (some (a, b)), h =>
+    simp only [Except.ok.injEq, Option.some.injEq, Prod.mk.injEq] at h
+    obtain ⟨rfl, _, rfl⟩ := h
+    refine ⟨rfl, ?_⟩
+    split <;> simp
+
+end Regress.VM.Bt
+
+namespace Regress.VM.Bt
+
+/-- `enterLoop` or `loopAgain`. -/
+def isLoopInsn : Insn → Bool
+  | .enterLoop .. => true
+  | .loopAgain _ => true
+  | _ => false
+
+/-- Everything `step` can return, arm by arm, with the facts the termination and stack-size arguments
+need (which instruction, the next `ip`, how the stack changed). -/
+inductive StepSpec (prog : Prog) (inp : Input) (ip pos : Nat) (fwd : Bool) (st : State)
+    (bts : Array BtInsn) : Act → Prop
+  | err (e) : StepSpec prog inp ip pos fwd st bts (.err e)
+  | goal (p s) : StepSpec prog inp ip pos fwd st bts (.goal p s)
+  | back (h : ip < prog.insns.size) : StepSpec prog inp ip pos fwd st bts (.back st bts)
+  | next (h : ip < prog.insns.size) (p : Nat) : StepSpec prog inp ip pos fwd st bts (.cont (ip + 1) p st bts)
+  | group (h : ip < prog.insns.size) (g cg st') :
+      StepSpec prog inp ip pos fwd st bts (.cont (ip + 1) pos st' (bts.push (.setCaptureGroup g cg)))
+  | jump (t) (h : prog.insns[ip]? = some (.jump t)) :
+      StepSpec prog inp ip pos fwd st bts (.cont t pos st bts)
+  | alt (s) (h : prog.insns[ip]? = some (.alt s)) :
+      StepSpec prog inp ip pos fwd st bts (.cont (ip + 1) pos st (bts.push (.setPosition s pos)))
+  | look (d neg sg eg k)
+      (h : prog.insns[ip]? = some (.lookahead neg sg eg k) ∨ prog.insns[ip]? = some (.lookbehind neg sg eg k)) :
+      StepSpec prog inp ip pos fwd st bts (.look d neg sg eg k)
+  | loopCont (i) (h : prog.insns[ip]? = some i) (hi : isLoopInsn i = true) (nip st' bts')
+      (hsz : bts'.size ≤ bts.size + 3) : StepSpec prog inp ip pos fwd st bts (.cont nip pos st' bts')
+  | loopBack (i) (h : prog.insns[ip]? = some i) (hi : isLoopInsn i = true) (st' bts')
+      (hsz : bts'.size ≤ bts.size + 1) : StepSpec prog inp ip pos fwd st bts (.back st' bts')
+  | loop1 (mn mx g) (h : prog.insns[ip]? = some (.loop1 mn mx g)) (nip p bts')
+      (hr : runScmLoop prog inp fwd bts pos mn mx ip g = .ok (some (nip, p, bts'))) :
+      StepSpec prog inp ip pos fwd st bts (.cont nip p st bts')
+
+section
+variable {prog : Prog} {inp : Input} {ip pos : Nat} {fwd : Bool} {st : State} {bts : Array BtInsn}
+
+theorem nextOrBt_spec (h : ip < prog.insns.size) (r site) :
+    StepSpec prog inp ip pos fwd st bts (nextOrBt r site ip st bts) := by
+  unfold nextOrBt; split
+  · exact .err _
+  · exact .back h
+  · exact .next h _
+
+theorem wordBoundaryAct_spec (h : ip < prog.insns.size) (f invert) :
+    StepSpec prog inp ip pos fwd st bts (wordBoundaryAct inp f invert ip pos st bts) := by
+  unfold wordBoundaryAct; split
+  · exact .err _
+  · split
+    · exact .err _
+    · simp only []
+      split
+      · exact .next h _
+      · exact .back h
+
+theorem lineAct_spec (h : ip < prog.insns.size) (r multiline site) :
+    StepSpec prog inp ip pos fwd st bts (lineAct r multiline site ip pos st bts) := by
+  unfold lineAct; split
+  · exact .err _
+  · exact .next h _
+  · split
+    · exact .next h _
+    · exact .back h
+
+theorem groupAct_spec (h : ip < prog.insns.size) (g upd site) :
+    StepSpec prog inp ip pos fwd st bts (groupAct g upd site ip pos st bts) := by
+  unfold groupAct; split
+  · exact .err _
+  · exact .group h _ _ _
+
+theorem step_spec : StepSpec prog inp ip pos fwd st bts (step prog inp ip pos fwd st bts) := by
+  unfold step
+  cases hin : prog.insns[ip]? with
+  | none => exact .err _
+  | some insn =>
+    have hlt : ip < prog.insns.size := by
+      rcases Nat.lt_or_ge ip prog.insns.size with h | h
+      · exact h
+      · simp [Array.getElem?_eq_none h] at hin
+    simp only []
+    cases insn with
+    | char c => simp only []; split; exact nextOrBt_spec hlt _ _; exact .back hlt
+    | charSet cs => exact nextOrBt_spec hlt _ _
+    | byteSet bs => exact nextOrBt_spec hlt _ _
+    | byteSeq bs => exact nextOrBt_spec hlt _ _
+    | asciiBracket bm => exact nextOrBt_spec hlt _ _
+    | bracket idx => simp only []; split; exact .err _; exact nextOrBt_spec hlt _ _
+    | matchAny => exact nextOrBt_spec hlt _ _
+    | matchAnyExceptLineTerminator => exact nextOrBt_spec hlt _ _
+    | wordBoundary invert => exact wordBoundaryAct_spec hlt _ _
+    | wordBoundaryUnicodeICase invert => exact wordBoundaryAct_spec hlt _ _
+    | startOfLine m => exact lineAct_spec hlt _ _ _
+    | endOfLine m => exact lineAct_spec hlt _ _ _
+    | jump t => exact .jump t hin
+    | beginCaptureGroup g => exact groupAct_spec hlt _ _ _
+    | endCaptureGroup g => exact groupAct_spec hlt _ _ _
+    | resetCaptureGroup g => exact groupAct_spec hlt _ _ _
+    | backRef g icase =>
+      simp only []; split
+      · exact .err _
+      · split
+        · split
+          · exact nextOrBt_spec hlt _ _
+          · exact nextOrBt_spec hlt _ _
+        · exact .next hlt _
+    | lookahead n sg eg k => exact .look _ _ _ _ _ (.inl hin)
+    | lookbehind n sg eg k => exact .look _ _ _ _ _ (.inr hin)
+    | alt s => exact .alt s hin
+    | enterLoop id mn mx g ex =>
+      simp only []; split
+      · exact .err _
+      · split
+        · exact .err _
+        · rename_i hr
+          have := (runLoop_spec hr).2
+          exact .loopCont _ hin rfl _ _ _ (by simp at this; omega)
+        · rename_i hr
+          have := (runLoop_spec hr).1 rfl
+          exact .loopBack _ hin rfl _ _ (by subst this; simp)
+    | loopAgain b =>
+      simp only []; split
+      · exact .err _
+      · split
+        · exact .err _
+        · rename_i hr
+          have := (runLoop_spec hr).2
+          exact .loopCont _ hin rfl _ _ _ (by omega)
+        · rename_i hr
+          have := (runLoop_spec hr).1 rfl
+          exact .loopBack _ hin rfl _ _ (by subst this; simp)
+      · exact .err _
+    | loop1 mn mx g =>
+      simp only []; split
+      · exact .err _
+      · exact .back hlt
+      · rename_i hr; exact .loop1 _ _ _ hin _ _ _ hr
+    | goal => exact .goal _ _
+    | justFail => exact .back hlt
+
+end
+end Regress.VM.Bt
+
+namespace Regress.VM
+
+theorem setIfInBounds_push_last {α} (rest : Array α) (r r' : α) :
+    (rest.push r).setIfInBounds ((rest.push r).size - 1) r' = rest.push r' := by
+  apply Array.ext_getElem?
+  intro i
+  simp only [Array.size_push, Nat.add_sub_cancel, Array.getElem?_setIfInBounds, Array.getElem?_push]
+  by_cases h : rest.size = i
+  · subst h; simp
+  · have h2 : ¬ i = rest.size := fun e => h e.symm
+    simp [h, h2]
+
+namespace Bt
+
+/-- Records that `try_backtrack` may pop without resuming. -/
+def skippable : BtInsn → Bool
+  | .setLoopData .. => true
+  | .setCaptureGroup .. => true
+  | .greedyLoop1Char .. => true
+  | .nonGreedyLoop1Char .. => true
+  | _ => false
+
+/-- Everything a resuming `tryBacktrack` can do: `BtSpec bts ip pos bts'`. -/
+inductive BtSpec (prog : Prog) (inp : Input) (fwd : Bool) :
+    Array BtInsn → Nat → Nat → Array BtInsn → Prop
+  | setPos (rest : Array BtInsn) (ip pos : Nat) : BtSpec prog inp fwd (rest.push (.setPosition ip pos)) ip pos rest
+  | skip (rest : Array BtInsn) (r : BtInsn) (ip pos : Nat) (bts' : Array BtInsn) (hr : skippable r = true) (h : BtSpec prog inp fwd rest ip pos bts') :
+      BtSpec prog inp fwd (rest.push r) ip pos bts'
+  | greedy (rest : Array BtInsn) (c mn mx newmax : Nat) (hne : mx ≠ mn)
+      (hnew : (if fwd then inp.nextLeftPos mx else inp.nextRightPos mx) = .ok (some newmax)) :
+      BtSpec prog inp fwd (rest.push (.greedyLoop1Char c mn mx)) c newmax
+        (rest.push (.greedyLoop1Char c mn newmax))
+  | nonGreedy (rest : Array BtInsn) (c mn mx newmin : Nat) (hne : mx ≠ mn)
+      (hnew : (if fwd then inp.nextRightPos mn else inp.nextLeftPos mn) = .ok (some newmin)) :
+      BtSpec prog inp fwd (rest.push (.nonGreedyLoop1Char c mn mx)) c newmin
+        (rest.push (.nonGreedyLoop1Char c newmin mx))
+  | enterNG (rest : Array BtInsn) (loopIp orig : Nat) (data : LoopData) (id a b c d)
+      (hin : prog.insns[loopIp]? = some (.enterLoop id a b c d)) :
+      BtSpec prog inp fwd (rest.push (.enterNonGreedyLoop loopIp orig data)) (loopIp + 1) data.entry
+        ((rest.push (.setLoopData id { data with entry := orig })).push (.setLoopData id data))
+
+theorem tryBacktrackLoop_spec (prog : Prog) (inp : Input) (fwd : Bool) :
+    ∀ (n : Nat) (st : State) (bts : Array BtInsn) {ip pos st' bts'},
+      tryBacktrackLoop prog inp fwd n st bts = .resumed ip pos st' bts' →
+      BtSpec prog inp fwd bts ip pos bts' := by
+  intro n
+  induction n with
+  | zero => intro st bts ip pos st' bts' h; simp [tryBacktrackLoop] at h
+  | succ n ih =>
+    intro st bts ip pos st' bts' h
+    unfold tryBacktrackLoop at h
+    cases hb : bts.back? with
+    | none => simp [hb] at h
+    | some bt =>
+      obtain ⟨rest, rfl⟩ := Array.back?_eq_some_iff.mp hb
+      simp only [hb, Array.pop_push] at h
+      cases bt with
+      | exhausted => simp at h
+      | setPosition ip2 pos2 =>
+        simp only [BtRes.resumed.injEq] at h
+        obtain ⟨rfl, rfl, _, rfl⟩ := h
+        exact .setPos _ _ _
+      | setLoopData id data =>
+        simp only at h
+        split at h
+        · exact .skip _ _ _ _ _ rfl (ih _ _ h)
+        · simp at h
+      | setCaptureGroup id data =>
+        simp only at h
+        split at h
+        · exact .skip _ _ _ _ _ rfl (ih _ _ h)
+        · simp at h
+      | enterNonGreedyLoop loopIp orig data =>
+        simp only at h
+        split at h
+        · simp at h
+        · rename_i hin
+          split at h
+          · simp only [prepareToEnterLoop, setIfInBounds_push_last, BtRes.resumed.injEq] at h
+            obtain ⟨rfl, rfl, _, rfl⟩ := h
+            exact .enterNG _ _ _ _ _ _ _ _ _ hin
+          · simp at h
+        · simp at h
+      | greedyLoop1Char c mn mx =>
+        simp only at h
+        split at h
+        · exact .skip _ _ _ _ _ rfl (ih _ _ h)
+        · rename_i hne
+          split at h
+          · simp at h
+          · simp at h
+          · rename_i hnew
+            simp only [setIfInBounds_push_last, BtRes.resumed.injEq] at h
+            obtain ⟨rfl, rfl, _, rfl⟩ := h
+            exact .greedy _ _ _ _ _ (by simpa using hne) hnew
+      | nonGreedyLoop1Char c mn mx =>
+        simp only at h
+        split at h
+        · exact .skip _ _ _ _ _ rfl (ih _ _ h)
+        · rename_i hne
+          split at h
+          · simp at h
+          · simp at h
+          · rename_i hnew
+            simp only [setIfInBounds_push_last, BtRes.resumed.injEq] at h
+            obtain ⟨rfl, rfl, _, rfl⟩ := h
+            exact .nonGreedy _ _ _ _ _ (by simpa using hne) hnew
+
+theorem tryBacktrack_spec {prog : Prog} {inp : Input} {fwd : Bool} {st : State} {bts : Array BtInsn}
+    {ip pos st' bts'} (h : tryBacktrack prog inp fwd st bts = .resumed ip pos st' bts') :
+    BtSpec prog inp fwd bts ip pos bts' :=
+  tryBacktrackLoop_spec prog inp fwd _ _ _ h
+
+theorem BtSpec.size_le {prog : Prog} {inp : Input} {fwd : Bool} {bts : Array BtInsn} {ip pos bts'}
+    (h : BtSpec prog inp fwd bts ip pos bts') : bts'.size ≤ bts.size + 1 := by
+  induction h with
+  | setPos => simp; omega
+  | skip _ _ _ _ _ _ _ ih => simp at ih ⊢; omega
+  | greedy => simp
+  | nonGreedy => simp
+  | enterNG => simp
+
+end Bt
+end Regress.VM
+
+namespace Regress.VM.Bt
+
+/-! ## (c) The stack bound — backtracker -/
+
+theorem step_cont_size {prog : Prog} {inp : Input} {ip pos : Nat} {fwd : Bool} {st : State}
+    {bts : Array BtInsn} {ip' p st' bts'}
+    (h : step prog inp ip pos fwd st bts = .cont ip' p st' bts') : bts'.size ≤ bts.size + 3 := by
+  have hs := step_spec (prog := prog) (inp := inp) (ip := ip) (pos := pos) (fwd := fwd) (st := st)
+    (bts := bts)
+  rw [h] at hs
+  cases hs with
+  | next => omega
+  | group => simp
+  | jump => omega
+  | alt => simp
+  | loopCont _ _ _ _ _ _ hsz => exact hsz
+  | loop1 _ _ _ _ _ _ _ hr => have := (runScmLoop_size hr).2; omega
+
+theorem step_back_size {prog : Prog} {inp : Input} {ip pos : Nat} {fwd : Bool} {st : State}
+    {bts : Array BtInsn} {st' bts'}
+    (h : step prog inp ip pos fwd st bts = .back st' bts') : bts'.size ≤ bts.size + 1 := by
+  have hs := step_spec (prog := prog) (inp := inp) (ip := ip) (pos := pos) (fwd := fwd) (st := st)
+    (bts := bts)
+  rw [h] at hs
+  cases hs with
+  | back => omega
+  | loopBack _ _ _ _ _ hsz => exact hsz
+
+/-- Number of records a successful positive look-around instruction pushes. -/
+def insnPush : Insn → Nat
+  | .lookahead _ sg eg _ => eg - sg
+  | .lookbehind _ sg eg _ => eg - sg
+  | _ => 0
+
+/-- `max 3 (max over the look-around instructions of endGroup - startGroup)`: the most records one
+tick can add to the backtrack stack. -/
+def maxPush (prog : Prog) : Nat := prog.insns.toList.foldl (fun m i => max m (insnPush i)) 3
+
+theorem foldl_max_spec (f : Insn → Nat) : ∀ (l : List Insn) (init : Nat),
+    init ≤ l.foldl (fun m i => max m (f i)) init ∧
+    ∀ x ∈ l, f x ≤ l.foldl (fun m i => max m (f i)) init := by
+  intro l
+  induction l with
+  | nil => intro init; simp
+  | cons a l ih =>
+    intro init
+    simp only [List.foldl_cons, List.mem_cons, forall_eq_or_imp]
+    have h1 := (ih (max init (f a))).1
+    have h2 := (ih (max init (f a))).2
+    refine ⟨by omega, by omega, h2⟩
+
+theorem three_le_maxPush (prog : Prog) : 3 ≤ maxPush prog := (foldl_max_spec _ _ _).1
+
+theorem insnPush_le_maxPush {prog : Prog} {ip : Nat} {i : Insn} (h : prog.insns[ip]? = some i) :
+    insnPush i ≤ maxPush prog := by
+  apply (foldl_max_spec _ _ _).2
+  have := Array.mem_of_getElem? h
+  simpa using this
+
+theorem step_look_push {prog : Prog} {inp : Input} {ip pos : Nat} {fwd : Bool} {st : State}
+    {bts : Array BtInsn} {d neg sg eg k}
+    (h : step prog inp ip pos fwd st bts = .look d neg sg eg k) : eg - sg ≤ maxPush prog := by
+  have hs := step_spec (prog := prog) (inp := inp) (ip := ip) (pos := pos) (fwd := fwd) (st := st)
+    (bts := bts)
+  rw [h] at hs
+  cases hs with
+  | look _ _ _ _ _ hin =>
+    rcases hin with hin | hin
+    · exact insnPush_le_maxPush hin
+    · exact insnPush_le_maxPush hin
+
+theorem pushSavedGroups_size : ∀ (l : List GroupData) (id : Nat) (bts : Array BtInsn),
+    (pushSavedGroups l id bts).size = bts.size + l.length := by
+  intro l
+  induction l with
+  | nil => intro id bts; simp [pushSavedGroups]
+  | cons a l ih => intro id bts; simp [pushSavedGroups, ih]; omega
+
+/-- `(steps, peak)` of a `matched`/`failed` outcome. -/
+def Outcome.stats : Outcome → Option (Nat × Nat)
+  | .matched _ _ s k => some (s, k)
+  | .failed _ s k => some (s, k)
+  | _ => none
+
+theorem run_peak_bound (prog : Prog) (inp : Input) (limit : Nat) :
+    ∀ (sf ip pos : Nat) (fwd : Bool) (st : State) (bts : Array BtInsn) (steps peak s' k' : Nat),
+      (run prog inp limit sf ip pos fwd st bts steps peak).stats = some (s', k') →
+      ∃ t, s' = steps + 1 + t ∧ k' ≤ max peak (bts.size + maxPush prog * t) := by
+  obtain ⟨K, hKdef⟩ : ∃ K, maxPush prog = K := ⟨_, rfl⟩
+  have hK : 3 ≤ K := hKdef ▸ three_le_maxPush prog
+  rw [hKdef]
+  intro sf
+  induction sf with
+  | zero => intro ip pos fwd st bts steps peak s' k' h; simp [run, Outcome.stats] at h
+  | succ sf ih =>
+    intro ip pos fwd st bts steps peak s' k' h
+    simp only [run] at h
+    by_cases hlim : steps ≥ limit
+    · simp [hlim, Outcome.stats] at h
+    · simp only [hlim, if_false] at h
+      have hpk : (if peak < bts.size then bts.size else peak) = max peak bts.size := by
+        split <;> omega
+      rw [hpk] at h
+      -- the tail shared by every `tryBacktrack` site
+      have hback : ∀ (st2 : State) (steps2 peak2 : Nat) (t0 : Nat),
+          steps2 = steps + 1 + t0 → peak2 ≤ max peak (bts.size + K * t0) →
+          ∀ bts2 : Array BtInsn, bts2.size ≤ bts.size + 1 →
+          (match tryBacktrack prog inp fwd st2 bts2 with
+            | .err e => Outcome.error e
+            | .exhausted st _ => .failed st steps2 peak2
+            | .resumed ip pos st bts => run prog inp limit sf ip pos fwd st bts steps2 peak2).stats
+            = some (s', k') →
+          ∃ t, s' = steps + 1 + t ∧ k' ≤ max peak (bts.size + K * t) := by
+        intro st2 steps2 peak2 t0 hs2 hp2 bts2 hb2 h
+        cases hbt : tryBacktrack prog inp fwd st2 bts2 with
+        | err e => simp [hbt, Outcome.stats] at h
+        | exhausted s b =>
+          simp only [hbt, Outcome.stats, Option.some.injEq, Prod.mk.injEq] at h
+          exact ⟨t0, by omega, by omega⟩
+        | resumed ip3 pos3 st3 bts3 =>
+          simp only [hbt] at h
+          obtain ⟨t, ht, hk⟩ := ih _ _ _ _ _ _ _ _ _ h
+          have := (tryBacktrack_spec hbt).size_le
+          refine ⟨t0 + 1 + t, by omega, ?_⟩
+          have e : K * (t0 + 1 + t) = K * t0 + K + K * t := by
+            rw [Nat.mul_add, Nat.mul_add, Nat.mul_one]
+          omega
+      cases hstep : step prog inp ip pos fwd st bts with
+      | err e => simp [hstep, Outcome.stats] at h
+      | goal p s =>
+        simp only [hstep, Outcome.stats, Option.some.injEq, Prod.mk.injEq] at h
+        exact ⟨0, by omega, by simp; omega⟩
+      | cont ip2 pos2 st2 bts2 =>
+        simp only [hstep] at h
+        obtain ⟨t, ht, hk⟩ := ih _ _ _ _ _ _ _ _ _ h
+        have := step_cont_size hstep
+        refine ⟨t + 1, by omega, ?_⟩
+        have e : K * (t + 1) = K * t + K := by rw [Nat.mul_add, Nat.mul_one]
+        omega
+      | back st2 bts2 =>
+        simp only [hstep] at h
+        have hsz := step_back_size hstep
+        exact hback st2 (steps + 1) _ 0 (by omega) (by simp) bts2 hsz h
+      | look dirFwd negate sg eg k =>
+        simp only [hstep] at h
+        have hpush := step_look_push hstep
+        rw [hKdef] at hpush
+        by_cases hg : sg > eg || eg > st.groups.size
+        · simp [hg, Outcome.stats] at h
+        · simp only [hg] at h
+          simp only [Bool.false_eq_true, if_false] at h
+          have hg' : sg ≤ eg ∧ eg ≤ st.groups.size := by
+            simp only [Bool.or_eq_true, decide_eq_true_eq, not_or] at hg; omega
+          have hlen : (st.groups.extract sg eg).toList.length = eg - sg := by
+            simp; omega
+          cases hr : run prog inp limit sf (ip + 1) pos dirFwd st #[.exhausted] (steps + 1)
+              (max peak bts.size) with
+          | outOfFuel => simp [hr, Outcome.stats] at h
+          | error e => simp [hr, Outcome.stats] at h
+          | matched p2 st2 steps2 peak2 =>
+            have hn := ih (ip + 1) pos dirFwd st #[.exhausted] (steps + 1) (max peak bts.size)
+              steps2 peak2 (by rw [hr]; rfl)
+            obtain ⟨t1, ht1, hk1⟩ := hn
+            rw [show (#[BtInsn.exhausted] : Array BtInsn).size = 1 from rfl] at hk1
+            simp only [hr] at h
+            have e1 : K * (1 + t1) = K + K * t1 := by rw [Nat.mul_add, Nat.mul_one]
+            have hK1 : K * t1 ≤ K * (1 + t1) := by omega
+            by_cases hneg : negate
+            · simp only [hneg, Bool.not_true, Bool.false_eq_true, if_false] at h
+              refine hback _ steps2 peak2 (1 + t1) (by omega) ?_ bts (by omega) h
+              omega
+            · simp only [hneg, Bool.not_false, if_true] at h
+              obtain ⟨t, ht, hk⟩ := ih _ _ _ _ _ _ _ _ _ h
+              rw [pushSavedGroups_size, hlen] at hk
+              refine ⟨1 + t1 + 1 + t, by omega, ?_⟩
+              have e : K * (1 + t1 + 1 + t) = K + K * t1 + K + K * t := by
+                rw [Nat.mul_add, Nat.mul_add, Nat.mul_add, Nat.mul_one]
+              omega
+          | failed st2 steps2 peak2 =>
+            have hn := ih (ip + 1) pos dirFwd st #[.exhausted] (steps + 1) (max peak bts.size)
+              steps2 peak2 (by rw [hr]; rfl)
+            obtain ⟨t1, ht1, hk1⟩ := hn
+            rw [show (#[BtInsn.exhausted] : Array BtInsn).size = 1 from rfl] at hk1
+            simp only [hr] at h
+            have e1 : K * (1 + t1) = K + K * t1 := by rw [Nat.mul_add, Nat.mul_one]
+            by_cases hneg : negate
+            · simp only [hneg, if_true] at h
+              obtain ⟨t, ht, hk⟩ := ih _ _ _ _ _ _ _ _ _ h
+              refine ⟨1 + t1 + 1 + t, by omega, ?_⟩
+              have e : K * (1 + t1 + 1 + t) = K + K * t1 + K + K * t := by
+                rw [Nat.mul_add, Nat.mul_add, Nat.mul_add, Nat.mul_one]
+              omega
+            · simp only [hneg, Bool.false_eq_true, if_false] at h
+              refine hback _ steps2 peak2 (1 + t1) (by omega) ?_ bts (by omega) h
+              omega
+
+end Regress.VM.Bt
+
+namespace Regress.VM.Pk
+open Regress.VM.Bt (isLoopInsn)
+
+/-- `(steps, peak)` carried by a `StateMatch`. -/
+def SM.stats : SM → Option (Nat × Nat)
+  | .fail _ s k => some (s, k)
+  | .cont _ s k => some (s, k)
+  | .split _ _ s k => some (s, k)
+  | .complete _ s k => some (s, k)
+  | _ => none
+
+def isLookOrLoop1 : Insn → Bool
+  | .lookahead .. => true
+  | .lookbehind .. => true
+  | .loop1 .. => true
+  | _ => false
+
+/-- What `tryMatchState` can return on an instruction other than a look-around or a `loop1`. -/
+inductive SimpleSpec (prog : Prog) (s : State) (steps peak : Nat) : SM → Prop
+  | err (e) : SimpleSpec prog s steps peak (.err e)
+  | fail (h : s.ip < prog.insns.size) (s') : SimpleSpec prog s steps peak (.fail s' steps peak)
+  | complete (h : prog.insns[s.ip]? = some .goal) : SimpleSpec prog s steps peak (.complete s steps peak)
+  | next (h : s.ip < prog.insns.size) (s' : State) (hip : s'.ip = s.ip + 1) :
+      SimpleSpec prog s steps peak (.cont s' steps peak)
+  | jump (t) (h : prog.insns[s.ip]? = some (.jump t)) (s' : State) (hip : s'.ip = t) :
+      SimpleSpec prog s steps peak (.cont s' steps peak)
+  | alt (sec) (h : prog.insns[s.ip]? = some (.alt sec)) (s1 s2 : State) (h1 : s1.ip = sec)
+      (h2 : s2.ip = s.ip + 1) : SimpleSpec prog s steps peak (.split s1 s2 steps peak)
+  | loopI (i) (h : prog.insns[s.ip]? = some i) (hi : isLoopInsn i = true) (sm : SM)
+      (hs : ∀ s' k', sm.stats = some (s', k') → s' = steps ∧ k' = peak) :
+      SimpleSpec prog s steps peak sm
+
+section
+variable {prog : Prog} {inp : Input} {s : State} {steps peak : Nat}
+
+theorem nextOrFail_spec (h : s.ip < prog.insns.size) (b : Bool) (s1 : State) (h1 : s1.ip = s.ip) :
+    SimpleSpec prog s steps peak (nextOrFail b s1 steps peak) := by
+  unfold nextOrFail; split
+  · exact .next h _ (by simp [h1])
+  · exact .fail h _
+
+theorem nextElemArm_spec (h : s.ip < prog.insns.size) (fwd f site) :
+    SimpleSpec prog s steps peak (nextElemArm inp fwd s f site steps peak) := by
+  unfold nextElemArm; split
+  · exact .err _
+  · exact .fail h _
+  · split
+    · exact .err _
+    · exact nextOrFail_spec h _ _ rfl
+
+theorem scmArm_spec (h : s.ip < prog.insns.size) (r site) :
+    SimpleSpec prog s steps peak (scmArm r s site steps peak) := by
+  unfold scmArm; split
+  · exact .err _
+  · exact .fail h _
+  · exact .next h _ rfl
+
+theorem lineArm_spec (h : s.ip < prog.insns.size) (r m site) :
+    SimpleSpec prog s steps peak (lineArm r m s site steps peak) := by
+  unfold lineArm; split
+  · exact .err _
+  · exact nextOrFail_spec h _ _ rfl
+  · exact nextOrFail_spec h _ _ rfl
+
+theorem wordBoundaryArm_spec (h : s.ip < prog.insns.size) (f invert) :
+    SimpleSpec prog s steps peak (wordBoundaryArm inp f invert s steps peak) := by
+  unfold wordBoundaryArm; split
+  · exact .err _
+  · split
+    · exact .err _
+    · exact nextOrFail_spec h _ _ rfl
+
+theorem groupArm_spec (h : s.ip < prog.insns.size) (g upd site) :
+    SimpleSpec prog s steps peak (groupArm g upd s site steps peak) := by
+  unfold groupArm; split
+  · exact .err _
+  · exact nextOrFail_spec h _ _ rfl
+
+/-- The result carries the counters `(st, pk)` unchanged (or none at all). -/
+def SM.Same (st pk : Nat) (sm : SM) : Prop :=
+  ∀ s' k', sm.stats = some (s', k') → s' = st ∧ k' = pk
+
+theorem SM.Same.ite {st pk : Nat} {c : Prop} [Decidable c] {a b : SM} (ha : SM.Same st pk a)
+    (hb : SM.Same st pk b) : SM.Same st pk (if c then a else b) := by
+  split <;> assumption
+theorem SM.same_fail {st pk : Nat} {s : State} : SM.Same st pk (.fail s st pk) := by
+  intro s' k' h; simp [SM.stats] at h; omega
+theorem SM.same_cont {st pk : Nat} {s : State} : SM.Same st pk (.cont s st pk) := by
+  intro s' k' h; simp [SM.stats] at h; omega
+theorem SM.same_split {st pk : Nat} {s n : State} : SM.Same st pk (.split s n st pk) := by
+  intro s' k' h; simp [SM.stats] at h; omega
+theorem SM.same_err {st pk : Nat} {e : String} : SM.Same st pk (.err e) := by
+  intro s' k' h; simp [SM.stats] at h
+
+theorem runLoop_stats (s : State) (id mn mx g ex b steps peak) :
+    SM.Same steps peak (runLoop s id mn mx g ex b steps peak) := by
+  unfold runLoop
+  split
+  · exact SM.same_err
+  · dsimp only
+    repeat' (first | exact SM.same_fail | exact SM.same_cont
+                   | exact SM.same_split | exact SM.same_err | apply SM.Same.ite)
+
+theorem tryMatchState_simple {look : Runner} {d : Nat} {fwd : Bool} {i : Insn}
+    (hin : prog.insns[s.ip]? = some i) (hi : isLookOrLoop1 i = false) :
+    SimpleSpec prog s steps peak (tryMatchState prog inp look (d + 1) s fwd steps peak) := by
+  have hlt : s.ip < prog.insns.size := by
+    rcases Nat.lt_or_ge s.ip prog.insns.size with h | h
+    · exact h
+    · simp [Array.getElem?_eq_none h] at hin
+  unfold tryMatchState
+  simp only [hin]
+  cases i with
+  | goal => exact .complete hin
+  | justFail => exact .fail hlt _
+  | char c => exact nextElemArm_spec hlt _ _ _
+  | charSet v => exact nextElemArm_spec hlt _ _ _
+  | byteSeq v => exact scmArm_spec hlt _ _
+  | startOfLine m => exact lineArm_spec hlt _ _ _
+  | endOfLine m => exact lineArm_spec hlt _ _ _
+  | matchAny => exact nextElemArm_spec hlt _ _ _
+  | matchAnyExceptLineTerminator => exact nextElemArm_spec hlt _ _ _
+  | jump t => exact .jump t hin _ rfl
+  | alt sec => exact .alt sec hin _ _ rfl rfl
+  | beginCaptureGroup g => exact groupArm_spec hlt _ _ _
+  | endCaptureGroup g => exact groupArm_spec hlt _ _ _
+  | resetCaptureGroup g => exact groupArm_spec hlt _ _ _
+  | backRef g icase =>
+    simp only []; split
+    · exact .err _
+    · split
+      · split
+        · exact scmArm_spec hlt _ _
+        · exact scmArm_spec hlt _ _
+      · exact nextOrFail_spec hlt _ _ rfl
+  | lookahead n sg eg k => simp [isLookOrLoop1] at hi
+  | lookbehind n sg eg k => simp [isLookOrLoop1] at hi
+  | enterLoop id mn mx g ex => exact .loopI _ hin rfl _ (runLoop_stats _ _ _ _ _ _ _ _ _)
+  | loopAgain b =>
+    simp only []; split
+    · exact .err _
+    · exact .loopI _ hin rfl _ (runLoop_stats _ _ _ _ _ _ _ _ _)
+    · exact .err _
+  | loop1 mn mx g => simp [isLookOrLoop1] at hi
+  | bracket idx => exact nextElemArm_spec hlt _ _ _
+  | asciiBracket bm => exact scmArm_spec hlt _ _
+  | byteSet bs => exact scmArm_spec hlt _ _
+  | wordBoundary inv => exact wordBoundaryArm_spec hlt _ _
+  | wordBoundaryUnicodeICase inv => exact wordBoundaryArm_spec hlt _ _
+
+end
+
+/-! ## (c) The stack bound — PikeVM -/
+
+/-- `(steps, peak)` of a `matched`/`failed` outcome. -/
+def Outcome.stats : Outcome → Option (Nat × Nat)
+  | .matched _ _ s k => some (s, k)
+  | .failed s k => some (s, k)
+  | _ => none
+
+theorem SimpleSpec.same {prog : Prog} {s : State} {steps peak : Nat} {sm : SM}
+    (hs : SimpleSpec prog s steps peak sm) : SM.Same steps peak sm := by
+  cases hs with
+  | err => exact SM.same_err
+  | fail => exact SM.same_fail
+  | complete => intro a b hh; simp [SM.stats] at hh; omega
+  | next => exact SM.same_cont
+  | jump => exact SM.same_cont
+  | alt => exact SM.same_split
+  | loopI _ _ _ _ hs => exact hs
+
+/-- A nested attempt that uses `t` ticks sees at most `t` states on its stack. -/
+def Runner.Ticks (look : Runner) : Prop :=
+  ∀ s0 d st pk s' k', (look s0 d st pk).stats = some (s', k') → ∃ t, s' = st + t ∧ k' ≤ max pk t
+
+theorem lookArm_ticks {look : Runner} (hl : look.Ticks) {dirFwd negate k s steps peak s' k'}
+    (h : (lookArm look dirFwd negate k s steps peak).stats = some (s', k')) :
+    ∃ t, s' = steps + t ∧ k' ≤ max peak t := by
+  unfold lookArm at h
+  simp only [] at h
+  split at h
+  · simp [SM.stats] at h
+  · simp [SM.stats] at h
+  · rename_i hr
+    apply hl _ _ _ _ s' k'
+    rw [hr]
+    split at h <;> simpa [SM.stats, Outcome.stats] using h
+  · rename_i hr
+    apply hl _ _ _ _ s' k'
+    rw [hr]
+    split at h <;> simpa [SM.stats, Outcome.stats] using h
+
+theorem tryMatchState_ticks (prog : Prog) (inp : Input) {look : Runner} (hl : look.Ticks) :
+    ∀ (d : Nat) (s : State) (fwd : Bool) (steps peak s' k' : Nat),
+      (tryMatchState prog inp look d s fwd steps peak).stats = some (s', k') →
+      ∃ t, s' = steps + t ∧ k' ≤ max peak t := by
+  intro d
+  induction d with
+  | zero => intro s fwd steps peak s' k' h; simp [tryMatchState, SM.stats] at h
+  | succ d ih =>
+    intro s fwd steps peak s' k' h
+    cases hin : prog.insns[s.ip]? with
+    | none => simp [tryMatchState, hin, SM.stats] at h
+    | some i =>
+      by_cases hi : isLookOrLoop1 i = false
+      · have hs := tryMatchState_simple (inp := inp) (look := look) (d := d) (fwd := fwd)
+          (steps := steps) (peak := peak) hin hi
+        obtain ⟨rfl, rfl⟩ := hs.same _ _ h
+        exact ⟨0, by omega, by omega⟩
+      · unfold tryMatchState at h
+        simp only [hin] at h
+        cases i with
+        | lookahead n sg eg k => exact lookArm_ticks hl h
+        | lookbehind n sg eg k => exact lookArm_ticks hl h
+        | loop1 mn mx g =>
+          simp only [] at h
+          split at h
+          · -- early exit with an `SM` of the body
+            rename_i sm heq
+            split at heq
+            · split at heq <;> simp at heq <;> subst heq <;> simp [SM.stats] at h
+            · simp at heq
+          · rename_i tp s2 st2 pk2 heq
+            have h2 : s' = st2 ∧ k' = pk2 := by
+              repeat' split at h
+              all_goals (simp [SM.stats] at h; omega)
+            obtain ⟨rfl, rfl⟩ := h2
+            split at heq
+            · split at heq
+              · rename_i hr
+                simp only [Except.ok.injEq, Prod.mk.injEq] at heq
+                obtain ⟨_, _, rfl, rfl⟩ := heq
+                exact ih _ _ _ _ _ _ (by rw [hr]; rfl)
+              · rename_i hr
+                simp only [Except.ok.injEq, Prod.mk.injEq] at heq
+                obtain ⟨_, _, rfl, rfl⟩ := heq
+                exact ih _ _ _ _ _ _ (by rw [hr]; rfl)
+              all_goals simp at heq
+            · simp only [Except.ok.injEq, Prod.mk.injEq] at heq
+              obtain ⟨_, _, rfl, rfl⟩ := heq
+              exact ⟨0, by omega, by omega⟩
+        | _ => simp [isLookOrLoop1] at hi
+
+theorem runStates_peak_bound (prog : Prog) (inp : Input) (limit : Nat) :
+    ∀ (sf : Nat) (states : Array State) (fwd : Bool) (steps peak s' k' : Nat),
+      (runStates prog inp limit sf states fwd steps peak).stats = some (s', k') →
+      ∃ t, s' = steps + t ∧ k' ≤ max peak (states.size + t - 1) := by
+  intro sf
+  induction sf with
+  | zero => intro states fwd steps peak s' k' h; simp [runStates, Outcome.stats] at h
+  | succ sf ih =>
+    intro states fwd steps peak s' k' h
+    simp only [runStates] at h
+    cases hb : states.back? with
+    | none =>
+      simp only [hb, Outcome.stats, Option.some.injEq, Prod.mk.injEq] at h
+      exact ⟨0, by omega, by omega⟩
+    | some s =>
+      have hne : states.size ≠ 0 := by
+        intro h0
+        have : states = #[] := Array.size_eq_zero_iff.mp h0
+        subst this; simp at hb
+      simp only [hb] at h
+      by_cases hlim : steps ≥ limit
+      · simp [hlim, Outcome.stats] at h
+      · simp only [hlim, if_false] at h
+        have hpk : (if peak < states.size then states.size else peak) = max peak states.size := by
+          split <;> omega
+        rw [hpk] at h
+        have hl : Runner.Ticks
+            (fun s0 dirFwd steps peak => runStates prog inp limit sf #[s0] dirFwd steps peak) := by
+          intro s0 d st pk a b hh
+          obtain ⟨t, ht, hk⟩ := ih _ _ _ _ _ _ hh
+          refine ⟨t, ht, ?_⟩
+          rw [show (#[s0] : Array State).size = 1 from rfl] at hk
+          omega
+        have hticks := tryMatchState_ticks prog inp hl (prog.insns.size + 1) s fwd (steps + 1)
+          (max peak states.size)
+        cases hr : tryMatchState prog inp
+            (fun s0 dirFwd steps peak => runStates prog inp limit sf #[s0] dirFwd steps peak)
+            (prog.insns.size + 1) s fwd (steps + 1) (max peak states.size) with
+        | err e => simp [hr, Outcome.stats] at h
+        | outOfFuel => simp [hr, Outcome.stats] at h
+        | complete s2 st2 pk2 =>
+          obtain ⟨u, hu, hku⟩ := hticks st2 pk2 (by rw [hr]; rfl)
+          simp only [hr, Outcome.stats, Option.some.injEq, Prod.mk.injEq] at h
+          exact ⟨1 + u, by omega, by omega⟩
+        | fail s2 st2 pk2 =>
+          obtain ⟨u, hu, hku⟩ := hticks st2 pk2 (by rw [hr]; rfl)
+          simp only [hr] at h
+          obtain ⟨t, ht, hk⟩ := ih _ _ _ _ _ _ h
+          simp only [Array.size_pop] at hk
+          exact ⟨1 + u + t, by omega, by omega⟩
+        | cont s2 st2 pk2 =>
+          obtain ⟨u, hu, hku⟩ := hticks st2 pk2 (by rw [hr]; rfl)
+          simp only [hr] at h
+          obtain ⟨t, ht, hk⟩ := ih _ _ _ _ _ _ h
+          simp only [Array.size_setIfInBounds] at hk
+          exact ⟨1 + u + t, by omega, by omega⟩
+        | split s2 new st2 pk2 =>
+          obtain ⟨u, hu, hku⟩ := hticks st2 pk2 (by rw [hr]; rfl)
+          simp only [hr] at h
+          obtain ⟨t, ht, hk⟩ := ih _ _ _ _ _ _ h
+          simp only [Array.size_push, Array.size_setIfInBounds] at hk
+          exact ⟨1 + u + t, by omega, by omega⟩
+
+end Regress.VM.Pk
+
+/-! ## (c) corollaries in subtraction form -/
+namespace Regress.VM
+
+theorem Bt.run_peak_le (prog : Prog) (inp : Input) (limit sf ip pos : Nat) (fwd : Bool)
+    (st : Bt.State) (bts : Array Bt.BtInsn) (steps peak s' k' : Nat)
+    (h : (Bt.run prog inp limit sf ip pos fwd st bts steps peak).stats = some (s', k')) :
+    steps < s' ∧ k' ≤ max peak (bts.size + Bt.maxPush prog * (s' - steps - 1)) := by
+  obtain ⟨t, ht, hk⟩ := Bt.run_peak_bound prog inp limit sf ip pos fwd st bts steps peak s' k' h
+  have : s' - steps - 1 = t := by omega
+  rw [this]; exact ⟨by omega, hk⟩
+
+theorem Bt.tryAtPos_peak_le (prog : Prog) (inp : Input) (fuel ip pos : Nat) (fwd : Bool)
+    (st : Bt.State) (s' k' : Nat)
+    (h : (Bt.tryAtPos prog inp fuel ip pos fwd st).stats = some (s', k')) :
+    1 ≤ s' ∧ k' ≤ 1 + Bt.maxPush prog * (s' - 1) := by
+  have := Bt.run_peak_le prog inp fuel fuel ip pos fwd st #[.exhausted] 0 0 s' k' h
+  rw [show (#[Bt.BtInsn.exhausted] : Array Bt.BtInsn).size = 1 from rfl] at this
+  have e : s' - 0 - 1 = s' - 1 := by omega
+  rw [e] at this
+  omega
+
+theorem Pk.runStates_peak_le (prog : Prog) (inp : Input) (limit sf : Nat) (states : Array Pk.State)
+    (fwd : Bool) (steps peak s' k' : Nat)
+    (h : (Pk.runStates prog inp limit sf states fwd steps peak).stats = some (s', k')) :
+    steps ≤ s' ∧ k' ≤ max peak (states.size + (s' - steps) - 1) := by
+  obtain ⟨t, ht, hk⟩ := Pk.runStates_peak_bound prog inp limit sf states fwd steps peak s' k' h
+  have : s' - steps = t := by omega
+  rw [this]; exact ⟨by omega, hk⟩
+
+theorem Pk.tryAtPos_peak_le (prog : Prog) (inp : Input) (fuel : Nat) (init : Pk.State) (fwd : Bool)
+    (s' k' : Nat) (h : (Pk.tryAtPos prog inp fuel init fwd).stats = some (s', k')) : k' ≤ s' := by
+  have := Pk.runStates_peak_le prog inp fuel fuel #[init] fwd 0 0 s' k' h
+  rw [show (#[init] : Array Pk.State).size = 1 from rfl] at this
+  omega
+
+end Regress.VM
+
+namespace Regress.VM
+
+/-! ## (b) Forward programs: definitions -/
+
+/-- The instruction at index `j` is not a general loop instruction and only transfers control to
+larger indices. -/
+def fwdInsn (j : Nat) : Insn → Bool
+  | .enterLoop .. => false
+  | .loopAgain _ => false
+  | .jump t => decide (j < t)
+  | .alt s => decide (j < s)
+  | .lookahead _ _ _ k => decide (j < k)
+  | .lookbehind _ _ _ k => decide (j < k)
+  | _ => true
+
+/-- A loop-free program whose control flow only goes forward (`loop1` and look-arounds allowed). -/
+def forwardProg (prog : Prog) : Bool :=
+  (List.range prog.insns.size).all (fun j =>
+    match prog.insns[j]? with
+    | some i => fwdInsn j i
+    | none => true)
+
+theorem forwardProg_insn {prog : Prog} (hf : forwardProg prog = true) {j : Nat} {i : Insn}
+    (h : prog.insns[j]? = some i) : fwdInsn j i = true := by
+  have hlt : j < prog.insns.size := by
+    rcases Nat.lt_or_ge j prog.insns.size with h' | h'
+    · exact h'
+    · simp [Array.getElem?_eq_none h'] at h
+  unfold forwardProg at hf
+  rw [List.all_eq_true] at hf
+  have := hf j (List.mem_range.mpr hlt)
+  simpa [h] using this
+
+/-- The tick bound of a run starting at `ip`: `(L + 3) ^ (n + 1 - ip)`. -/
+def tickB (n L ip : Nat) : Nat := (L + 3) ^ (n + 1 - ip)
+
+theorem tickB_pos (n L ip : Nat) : 1 ≤ tickB n L ip := Nat.one_le_pow _ _ (by omega)
+
+theorem tickB_anti (n L : Nat) {a b : Nat} (h : a ≤ b) : tickB n L b ≤ tickB n L a :=
+  Nat.pow_le_pow_right (by omega) (by omega)
+
+theorem tickB_succ {n L ip : Nat} (h : ip < n) : tickB n L ip = (L + 3) * tickB n L (ip + 1) := by
+  unfold tickB
+  have : n + 1 - ip = (n + 1 - (ip + 1)) + 1 := by omega
+  rw [this, Nat.pow_succ, Nat.mul_comm]
+
+/-! ## Position facts about the input primitives -/
+
+theorem seqLen_pos (b : Nat) : 1 ≤ Utf8.seqLen b := by
+  unfold Utf8.seqLen; repeat' split
+  all_goals omega
+
+theorem nextLeftPos_lt {inp : Input} {p q : Nat} (h : inp.nextLeftPos p = .ok (some q)) : q < p := by
+  unfold Input.nextLeftPos at h
+  split at h
+  · unfold Utf8.nextLeftPos at h
+    repeat' split at h
+    all_goals (simp at *)
+    all_goals omega
+  · simp only [Input.tryMoveLeft, Utf8.tryMoveLeft, Except.ok.injEq] at h
+    split at h
+    · simp at h
+    · simp at h; omega
+
+theorem nextRightPos_gt {inp : Input} {p q : Nat} (h : inp.nextRightPos p = .ok (some q)) :
+    p < q ∧ p < inp.bytes.size := by
+  unfold Input.nextRightPos at h
+  split at h
+  · unfold Utf8.nextRightPos at h
+    split at h
+    · simp at h
+    · split at h
+      · simp at h
+      · rename_i b0 hb
+        have hlt : p < inp.bytes.size := by
+          rcases Nat.lt_or_ge p inp.bytes.size with h' | h'
+          · exact h'
+          · simp [Array.getElem?_eq_none h'] at hb
+        have := seqLen_pos b0
+        split at h <;> simp at h <;> omega
+  · simp only [Input.tryMoveRight, Utf8.tryMoveRight, Except.ok.injEq] at h
+    split at h
+    · simp at h
+    · simp at h; omega
+
+end Regress.VM
+
+namespace Regress.VM
+
+theorem lt_size_of_getElem? {α} {a : Array α} {i : Nat} {x : α} (h : a[i]? = some x) : i < a.size := by
+  rcases Nat.lt_or_ge i a.size with h' | h'
+  · exact h'
+  · simp [Array.getElem?_eq_none h'] at h
+
+/-- A successful move from `pos` to `p` in direction `fwd` is strict and stays inside the input. -/
+def MoveOk (inp : Input) (fwd : Bool) (pos p : Nat) : Prop :=
+  (fwd = true → pos < p ∧ p ≤ inp.bytes.size) ∧ (fwd = false → p < pos ∧ pos ≤ inp.bytes.size)
+
+theorem seqLen_le (b : Nat) : Utf8.seqLen b ≤ 4 := by
+  unfold Utf8.seqLen; repeat' split
+  all_goals omega
+
+theorem utf8_nextRight_bound {bytes : Array Nat} {pos c p : Nat}
+    (h : Utf8.nextRight bytes pos = .ok (some (c, p))) : pos < p ∧ p ≤ bytes.size := by
+  unfold Utf8.nextRight at h
+  split at h
+  · simp at h
+  · split at h
+    · simp at h
+    · rename_i b0 hb0
+      have h0 := lt_size_of_getElem? hb0
+      split at h
+      · simp at h; omega
+      · simp only [] at h
+        have h1 := seqLen_pos b0
+        have h4 := seqLen_le b0
+        split at h
+        · simp at h
+        · rename_i cp hcp
+          split at h
+          · simp only [Except.ok.injEq, Option.some.injEq, Prod.mk.injEq] at h
+            obtain ⟨_, rfl⟩ := h
+            refine ⟨by omega, ?_⟩
+            split at hcp
+            · rename_i h2
+              split at hcp
+              · rename_i hb1; have := lt_size_of_getElem? hb1; simp at h2; omega
+              · simp at hcp
+            · split at hcp
+              · rename_i h3
+                split at hcp
+                · rename_i hb1 hb2; have := lt_size_of_getElem? hb2; simp at h3; omega
+                · simp at hcp
+              · split at hcp
+                · rename_i hb1 hb2 hb3; have := lt_size_of_getElem? hb3; omega
+                · simp at hcp
+          · simp at h
+
+theorem utf8_nextLeft_bound {bytes : Array Nat} {pos c p : Nat}
+    (h : Utf8.nextLeft bytes pos = .ok (some (c, p))) : p < pos ∧ pos ≤ bytes.size := by
+  unfold Utf8.nextLeft at h
+  split at h
+  · simp at h
+  · rename_i hp0
+    split at h
+    · simp at h
+    · rename_i z hz
+      have hz' := lt_size_of_getElem? hz
+      have hp : pos ≠ 0 := by simpa using hp0
+      refine ⟨?_, by omega⟩
+      repeat' split at h
+      all_goals (try dsimp only at h)
+      all_goals (try split at h)
+      all_goals (simp at h)
+      all_goals omega
+
+theorem cursor_next_ok {inp : Input} {fwd : Bool} {pos c p : Nat}
+    (h : Cursor.next inp fwd pos = .ok (some (c, p))) : MoveOk inp fwd pos p := by
+  unfold Cursor.next at h
+  cases fwd with
+  | true =>
+    simp only [if_true] at h
+    refine ⟨fun _ => ?_, fun hc => by simp at hc⟩
+    unfold Input.nextRight at h
+    split at h
+    · exact utf8_nextRight_bound h
+    · split at h
+      · simp at h
+      · split at h
+        · simp at h
+        · rename_i hb; have := lt_size_of_getElem? hb
+          simp at h; omega
+  | false =>
+    simp only [Bool.false_eq_true, if_false] at h
+    refine ⟨fun hc => by simp at hc, fun _ => ?_⟩
+    unfold Input.nextLeft at h
+    split at h
+    · exact utf8_nextLeft_bound h
+    · split at h
+      · simp at h
+      · rename_i hp0
+        split at h
+        · simp at h
+        · rename_i hb; have := lt_size_of_getElem? hb
+          have hp : pos ≠ 0 := by simpa using hp0
+          simp at h; omega
+
+theorem cursor_nextByte_ok {inp : Input} {fwd : Bool} {pos b p : Nat}
+    (h : Cursor.nextByte inp fwd pos = .ok (some (b, p))) : MoveOk inp fwd pos p := by
+  unfold Cursor.nextByte at h
+  cases fwd with
+  | true =>
+    simp only [if_true] at h
+    refine ⟨fun _ => ?_, fun hc => by simp at hc⟩
+    split at h
+    · simp at h
+    · simp at h
+    · rename_i b' hpk
+      simp only [Except.ok.injEq, Option.some.injEq, Prod.mk.injEq] at h
+      obtain ⟨_, rfl⟩ := h
+      unfold Input.peekByteRight at hpk
+      split at hpk
+      · simp at hpk
+      · simp only [Utf8.peekByteRight, Except.ok.injEq] at hpk
+        split at hpk
+        · simp at hpk
+        · have := lt_size_of_getElem? hpk; omega
+  | false =>
+    simp only [Bool.false_eq_true, if_false] at h
+    refine ⟨fun hc => by simp at hc, fun _ => ?_⟩
+    split at h
+    · simp at h
+    · simp at h
+    · rename_i b' hpk
+      simp only [Except.ok.injEq, Option.some.injEq, Prod.mk.injEq] at h
+      obtain ⟨_, rfl⟩ := h
+      unfold Input.peekByteLeft at hpk
+      split at hpk
+      · simp at hpk
+      · simp only [Utf8.peekByteLeft, Except.ok.injEq] at hpk
+        split at hpk
+        · simp at hpk
+        · rename_i hp0
+          have hp : pos ≠ 0 := by simpa using hp0
+          omega
+
+theorem matchBytes_ok {inp : Input} {fwd : Bool} {pos p : Nat} {lit : List Nat} (hl : lit ≠ [])
+    (h : inp.matchBytes fwd pos lit = some p) : MoveOk inp fwd pos p := by
+  have hlen : 1 ≤ lit.length := by
+    cases lit with
+    | nil => exact absurd rfl hl
+    | cons a l => simp
+  unfold Input.matchBytes Utf8.matchBytes at h
+  cases fwd with
+  | true =>
+    simp only [if_true] at h
+    refine ⟨fun _ => ?_, fun hc => by simp at hc⟩
+    unfold Utf8.tryMoveRight at h
+    split at h
+    · simp at h
+    · rename_i e he
+      split at he
+      · simp at he
+      · simp only [Option.some.injEq] at he
+        split at h
+        · simp only [Option.some.injEq] at h; omega
+        · simp at h
+  | false =>
+    simp only [Bool.false_eq_true, if_false] at h
+    refine ⟨fun hc => by simp at hc, fun _ => ?_⟩
+    unfold Utf8.tryMoveLeft at h
+    split at h
+    · simp at h
+    · rename_i s hs
+      split at hs
+      · simp at hs
+      · simp only [Option.some.injEq] at hs
+        split at h
+        · rename_i heq
+          simp only [Option.some.injEq] at h
+          have h1 : Utf8.slice inp.bytes s pos = lit := by simpa using heq
+          have h2 := congrArg List.length h1
+          simp only [Utf8.slice, Array.length_toList, Array.size_extract] at h2
+          omega
+        · simp at h
+
+/-- The matchers selected by `scmSelect`: a `byteSeq` is non-empty. -/
+def Scm.good : Scm → Bool
+  | .byteSeq bs => !bs.isEmpty
+  | _ => true
+
+theorem Scm.matches_ok {m : Scm} (hg : m.good = true) {inp : Input} {fwd : Bool} {pos p : Nat}
+    (h : m.matches inp fwd pos = .ok (some p)) : MoveOk inp fwd pos p := by
+  have hite : ∀ {c : Prop} [Decidable c] {q : Nat},
+      (Except.ok (if c then some q else none) : Except Unit (Option Nat)) = .ok (some p) → q = p := by
+    intro c _ q hh
+    split at hh <;> simp at hh
+    exact hh
+  cases m with
+  | byteSeq bs =>
+    simp only [Scm.matches, Cursor.tryMatchLit, Except.ok.injEq] at h
+    exact matchBytes_ok (by intro hc; subst hc; simp [Scm.good] at hg) h
+  | byteSet bm =>
+    simp only [Scm.matches] at h
+    split at h
+    · simp at h
+    · simp at h
+    · rename_i hn; have := hite h; subst this; exact cursor_nextByte_ok hn
+  | byteArraySet bs =>
+    simp only [Scm.matches] at h
+    split at h
+    · simp at h
+    · simp at h
+    · rename_i hn; have := hite h; subst this; exact cursor_nextByte_ok hn
+  | char c =>
+    simp only [Scm.matches] at h
+    split at h
+    · simp at h
+    · simp at h
+    · rename_i hn; have := hite h; subst this; exact cursor_next_ok hn
+  | charSet cs =>
+    simp only [Scm.matches] at h
+    split at h
+    · simp at h
+    · simp at h
+    · rename_i hn; have := hite h; subst this; exact cursor_next_ok hn
+  | bracket bc =>
+    simp only [Scm.matches] at h
+    split at h
+    · simp at h
+    · simp at h
+    · rename_i hn; have := hite h; subst this; exact cursor_next_ok hn
+  | matchAny =>
+    simp only [Scm.matches] at h
+    split at h
+    · simp at h
+    · simp at h
+    · rename_i hn; simp at h; subst h; exact cursor_next_ok hn
+  | matchAnyExceptLineTerminator =>
+    simp only [Scm.matches] at h
+    split at h
+    · simp at h
+    · simp at h
+    · rename_i hn; have := hite h; subst this; exact cursor_next_ok hn
+
+end Regress.VM
+
+namespace Regress.VM.Bt
+
+/-! ## (b) Backtracker: single-char loops push a record whose positions are inside the input -/
+
+/-- Either nothing moved, or the positions a loop record needs are inside the input. -/
+def SpanOk (inp : Input) (fwd : Bool) (a b : Nat) : Prop :=
+  b = a ∨ ((fwd = true → b ≤ inp.bytes.size) ∧ (fwd = false → a ≤ inp.bytes.size))
+
+theorem scmUpTo_span {m : Scm} (hg : m.good = true) (inp : Input) (fwd : Bool) :
+    ∀ (fuel : Nat) (limit : Option Nat) (pos q : Nat),
+      scmUpTo m inp fwd fuel limit pos = .ok q → SpanOk inp fwd pos q := by
+  intro fuel
+  induction fuel with
+  | zero => intro limit pos q h; simp [scmUpTo] at h
+  | succ fuel ih =>
+    intro limit pos q h
+    unfold scmUpTo at h
+    split at h
+    · simp at h; exact .inl h.symm
+    · split at h
+      · simp at h
+      · simp at h; exact .inl h.symm
+      · rename_i p hm
+        have hmv := Scm.matches_ok hg hm
+        rcases ih _ _ _ h with h1 | h1
+        · subst h1
+          exact .inr ⟨fun hf => (hmv.1 hf).2, fun hf => (hmv.2 hf).2⟩
+        · exact .inr ⟨h1.1, fun hf => (hmv.2 hf).2⟩
+
+theorem scmSelect_good {prog : Prog} {kind : InputKind} {ip : Nat} {m : Scm}
+    (h : scmSelect prog kind ip = .scm m) : m.good = true := by
+  unfold scmSelect at h
+  split at h
+  · simp at h
+  · split at h
+    all_goals first
+      | (simp only [ScmSel.scm.injEq] at h; subst h; rfl)
+      | skip
+    · split at h
+      · simp only [ScmSel.scm.injEq] at h; subst h; rfl
+      · simp at h
+    · split at h
+      · simp only [ScmSel.scm.injEq] at h; subst h; rfl
+      · simp at h
+    · split at h
+      · rename_i hl
+        simp only [ScmSel.scm.injEq] at h; subst h
+        simp only [Scm.good, Bool.not_eq_true', List.isEmpty_eq_false_iff]
+        intro hc; subst hc; simp at hl
+      · simp at h
+    · simp at h
+
+theorem runScmLoopImpl_span {m : Scm} (hg : m.good = true) {inp : Input} {fwd : Bool}
+    {pos mn : Nat} {mx : Option Nat} {a b : Nat}
+    (h : runScmLoopImpl m inp fwd pos mn mx = .ok (some (a, b))) : SpanOk inp fwd a b := by
+  unfold runScmLoopImpl at h
+  split at h
+  · simp at h
+  · simp at h
+  · simp only [] at h
+    split at h
+    · simp at h
+    · split at h
+      · simp at h
+      · rename_i hup
+        simp only [Except.ok.injEq, Option.some.injEq, Prod.mk.injEq] at h
+        obtain ⟨rfl, rfl⟩ := h
+        exact scmUpTo_span hg inp fwd _ _ _ _ hup
+
+theorem withScmLoopImpl_span {prog : Prog} {inp : Input} {fwd : Bool} {pos mn : Nat}
+    {mx : Option Nat} {ip a b : Nat}
+    (h : withScmLoopImpl prog inp fwd pos mn mx ip = .ok (some (a, b))) : SpanOk inp fwd a b := by
+  unfold withScmLoopImpl at h
+  split at h
+  · rename_i m hsel; exact runScmLoopImpl_span (scmSelect_good hsel) h
+  · split at h
+    · simp at h; exact .inl (by omega)
+    · simp at h
+  all_goals simp at h
+
+theorem withScmComputeMax_span {prog : Prog} {inp : Input} {fwd : Bool} {pos : Nat}
+    {limit : Option Nat} {ip q : Nat}
+    (h : withScmComputeMax prog inp fwd pos limit ip = .ok q) : SpanOk inp fwd pos q := by
+  unfold withScmComputeMax at h
+  split at h
+  · rename_i m hsel; exact scmUpTo_span (scmSelect_good hsel) inp fwd _ _ _ _ h
+  · simp at h; exact .inl h.symm
+  all_goals simp at h
+
+/-- What `runScmLoop` returns: the continuation `ip + 2` and the stack, unchanged or with one loop
+record whose span is inside the input. -/
+theorem runScmLoop_spec {prog : Prog} {inp : Input} {fwd : Bool} {bts : Array BtInsn}
+    {pos mn : Nat} {mx : Option Nat} {ip : Nat} {g : Bool} {nip p : Nat} {bts' : Array BtInsn}
+    (h : runScmLoop prog inp fwd bts pos mn mx ip g = .ok (some (nip, p, bts'))) :
+    nip = ip + 2 ∧ (bts' = bts ∨ ∃ a b, SpanOk inp fwd a b ∧ a ≠ b ∧
+      bts' = bts.push (if g then .greedyLoop1Char (ip + 2) a b else .nonGreedyLoop1Char (ip + 2) a b)) := by
+  unfold runScmLoop at h
+  simp only [] at h
+  split at h
+  · simp at h
+  · simp at h
+  · rename_i a b hmm
+    simp only [Except.ok.injEq, Option.some.injEq, Prod.mk.injEq] at h
+    obtain ⟨rfl, _, rfl⟩ := h
+    refine ⟨rfl, ?_⟩
+    by_cases hab : a = b
+    · left; simp [hab]
+    · right
+      refine ⟨a, b, ?_, hab, by simp [hab]⟩
+      cases g with
+      | true => simp only [if_true] at hmm; exact withScmLoopImpl_span hmm
+      | false =>
+        simp only [Bool.false_eq_true, if_false] at hmm
+        split at hmm
+        · simp at hmm
+        · simp at hmm
+        · split at hmm
+          · split at hmm
+            · simp at hmm
+            · rename_i hcm
+              simp only [Except.ok.injEq, Option.some.injEq, Prod.mk.injEq] at hmm
+              obtain ⟨rfl, rfl⟩ := hmm
+              exact withScmComputeMax_span hcm
+          · simp only [Except.ok.injEq, Option.some.injEq, Prod.mk.injEq] at hmm
+            obtain ⟨rfl, rfl⟩ := hmm
+            exact .inl rfl
+
+end Regress.VM.Bt
+
+namespace Regress.VM.Bt
+
+/-! ## (b) Backtracker: the potential -/
+
+/-- Ticks a backtrack record can still cause (`n` instructions, `L` input bytes, direction `fwd`). -/
+def cost (n L : Nat) (fwd : Bool) : BtInsn → Nat
+  | .setPosition ip _ => tickB n L ip
+  | .greedyLoop1Char c _ mx => (if fwd then mx else L - mx) * tickB n L c
+  | .nonGreedyLoop1Char c mn _ => (if fwd then L - mn else mn) * tickB n L c
+  | _ => 0
+
+def costSum (n L : Nat) (fwd : Bool) (bts : Array BtInsn) : Nat :=
+  (bts.toList.map (cost n L fwd)).sum
+
+theorem costSum_push (n L : Nat) (fwd : Bool) (bts : Array BtInsn) (r : BtInsn) :
+    costSum n L fwd (bts.push r) = costSum n L fwd bts + cost n L fwd r := by
+  simp [costSum, List.sum_append]
+
+theorem costSum_pushSavedGroups (n L : Nat) (fwd : Bool) : ∀ (l : List GroupData) (id : Nat)
+    (bts : Array BtInsn), costSum n L fwd (pushSavedGroups l id bts) = costSum n L fwd bts := by
+  intro l
+  induction l with
+  | nil => intro id bts; rfl
+  | cons a l ih => intro id bts; simp [pushSavedGroups, ih, costSum_push, cost]
+
+theorem BtSpec.cost_le {prog : Prog} (hf : forwardProg prog = true) {inp : Input} {fwd : Bool}
+    {bts : Array BtInsn} {ip pos : Nat} {bts' : Array BtInsn}
+    (h : BtSpec prog inp fwd bts ip pos bts') :
+    tickB prog.insns.size inp.bytes.size ip + costSum prog.insns.size inp.bytes.size fwd bts'
+      ≤ costSum prog.insns.size inp.bytes.size fwd bts := by
+  induction h with
+  | setPos rest ip pos => rw [costSum_push]; simp only [cost]; omega
+  | skip rest r ip pos bts' _ _ ih => rw [costSum_push]; omega
+  | greedy rest c mn mx newmax hne hnew =>
+    rw [costSum_push, costSum_push]
+    simp only [cost]
+    cases fwd with
+    | true =>
+      simp only [if_true] at hnew ⊢
+      have := nextLeftPos_lt hnew
+      have h2 : (newmax + 1) * tickB prog.insns.size inp.bytes.size c
+          ≤ mx * tickB prog.insns.size inp.bytes.size c := Nat.mul_le_mul_right _ (by omega)
+      rw [Nat.add_mul, Nat.one_mul] at h2
+      omega
+    | false =>
+      simp only [Bool.false_eq_true, if_false] at hnew ⊢
+      have := nextRightPos_gt hnew
+      have h2 : (inp.bytes.size - newmax + 1) * tickB prog.insns.size inp.bytes.size c
+          ≤ (inp.bytes.size - mx) * tickB prog.insns.size inp.bytes.size c :=
+        Nat.mul_le_mul_right _ (by omega)
+      rw [Nat.add_mul, Nat.one_mul] at h2
+      omega
+  | nonGreedy rest c mn mx newmin hne hnew =>
+    rw [costSum_push, costSum_push]
+    simp only [cost]
+    cases fwd with
+    | true =>
+      simp only [if_true] at hnew ⊢
+      have := nextRightPos_gt hnew
+      have h2 : (inp.bytes.size - newmin + 1) * tickB prog.insns.size inp.bytes.size c
+          ≤ (inp.bytes.size - mn) * tickB prog.insns.size inp.bytes.size c :=
+        Nat.mul_le_mul_right _ (by omega)
+      rw [Nat.add_mul, Nat.one_mul] at h2
+      omega
+    | false =>
+      simp only [Bool.false_eq_true, if_false] at hnew ⊢
+      have := nextLeftPos_lt hnew
+      have h2 : (newmin + 1) * tickB prog.insns.size inp.bytes.size c
+          ≤ mn * tickB prog.insns.size inp.bytes.size c := Nat.mul_le_mul_right _ (by omega)
+      rw [Nat.add_mul, Nat.one_mul] at h2
+      omega
+  | enterNG rest loopIp orig data id a b c d hin =>
+    have := forwardProg_insn hf hin
+    simp [fwdInsn] at this
+
+section
+variable {prog : Prog} {inp : Input} {ip pos : Nat} {fwd : Bool} {st : State} {bts : Array BtInsn}
+
+theorem loopInsn_not_fwd {j : Nat} {i : Insn} (hi : isLoopInsn i = true) : fwdInsn j i = false := by
+  cases i <;> simp [isLoopInsn] at hi <;> rfl
+
+theorem step_cont_cost (hf : forwardProg prog = true) {ip' p st' bts'}
+    (h : step prog inp ip pos fwd st bts = .cont ip' p st' bts') :
+    ip < prog.insns.size ∧ ip < ip' ∧
+    costSum prog.insns.size inp.bytes.size fwd bts'
+      ≤ costSum prog.insns.size inp.bytes.size fwd bts
+        + (inp.bytes.size + 1) * tickB prog.insns.size inp.bytes.size (ip + 1) := by
+  have hs := step_spec (prog := prog) (inp := inp) (ip := ip) (pos := pos) (fwd := fwd) (st := st)
+    (bts := bts)
+  rw [h] at hs
+  cases hs with
+  | next hlt => exact ⟨hlt, by omega, by omega⟩
+  | group hlt => exact ⟨hlt, by omega, by rw [costSum_push]; simp [cost]⟩
+  | jump t hin =>
+    have := forwardProg_insn hf hin
+    simp only [fwdInsn, decide_eq_true_eq] at this
+    exact ⟨lt_size_of_getElem? hin, this, by omega⟩
+  | alt s hin =>
+    have := forwardProg_insn hf hin
+    simp only [fwdInsn, decide_eq_true_eq] at this
+    refine ⟨lt_size_of_getElem? hin, by omega, ?_⟩
+    rw [costSum_push]
+    simp only [cost]
+    have h1 := tickB_anti prog.insns.size inp.bytes.size (show ip + 1 ≤ s by omega)
+    have h2 : (inp.bytes.size + 1) * tickB prog.insns.size inp.bytes.size (ip + 1)
+        = inp.bytes.size * tickB prog.insns.size inp.bytes.size (ip + 1)
+          + tickB prog.insns.size inp.bytes.size (ip + 1) := by rw [Nat.add_mul, Nat.one_mul]
+    omega
+  | loopCont i hin hi =>
+    have := forwardProg_insn hf hin
+    rw [loopInsn_not_fwd hi] at this
+    simp at this
+  | loop1 mn mx g hin nip p bts' hr =>
+    obtain ⟨rfl, hb⟩ := runScmLoop_spec hr
+    refine ⟨lt_size_of_getElem? hin, by omega, ?_⟩
+    rcases hb with rfl | ⟨a, b, hspan, hab, rfl⟩
+    · omega
+    · rw [costSum_push]
+      have hB := tickB_anti prog.insns.size inp.bytes.size (show ip + 1 ≤ ip + 2 by omega)
+      have h2 : (inp.bytes.size + 1) * tickB prog.insns.size inp.bytes.size (ip + 1)
+          = inp.bytes.size * tickB prog.insns.size inp.bytes.size (ip + 1)
+            + tickB prog.insns.size inp.bytes.size (ip + 1) := by rw [Nat.add_mul, Nat.one_mul]
+      have hsp : (fwd = true → b ≤ inp.bytes.size) ∧ (fwd = false → a ≤ inp.bytes.size) := by
+        rcases hspan with h' | h'
+        · exact absurd h'.symm hab
+        · exact h'
+      have key : ∀ x, x ≤ inp.bytes.size →
+          x * tickB prog.insns.size inp.bytes.size (ip + 2)
+            ≤ inp.bytes.size * tickB prog.insns.size inp.bytes.size (ip + 1) :=
+        fun x hx => Nat.mul_le_mul hx hB
+      cases g <;> cases fwd <;> simp only [cost, if_true, Bool.false_eq_true, if_false]
+      · have := key a (hsp.2 rfl); omega
+      · have := key (inp.bytes.size - a) (by omega); omega
+      · have := key (inp.bytes.size - b) (by omega); omega
+      · have := key b (hsp.1 rfl); omega
+
+theorem step_back_same (hf : forwardProg prog = true) {st' bts'}
+    (h : step prog inp ip pos fwd st bts = .back st' bts') : bts' = bts := by
+  have hs := step_spec (prog := prog) (inp := inp) (ip := ip) (pos := pos) (fwd := fwd) (st := st)
+    (bts := bts)
+  rw [h] at hs
+  cases hs with
+  | back => rfl
+  | loopBack i hin hi =>
+    have := forwardProg_insn hf hin
+    rw [loopInsn_not_fwd hi] at this
+    simp at this
+
+theorem step_look_fwd (hf : forwardProg prog = true) {d neg sg eg k}
+    (h : step prog inp ip pos fwd st bts = .look d neg sg eg k) :
+    ip < prog.insns.size ∧ ip < k := by
+  have hs := step_spec (prog := prog) (inp := inp) (ip := ip) (pos := pos) (fwd := fwd) (st := st)
+    (bts := bts)
+  rw [h] at hs
+  cases hs with
+  | look _ _ _ _ _ hin =>
+    rcases hin with hin | hin
+    · have := forwardProg_insn hf hin
+      simp only [fwdInsn, decide_eq_true_eq] at this
+      exact ⟨lt_size_of_getElem? hin, this⟩
+    · have := forwardProg_insn hf hin
+      simp only [fwdInsn, decide_eq_true_eq] at this
+      exact ⟨lt_size_of_getElem? hin, this⟩
+
+end
+end Regress.VM.Bt
+
+namespace Regress.VM.Bt
+
+/-- The outcome is not `.outOfFuel`, and a `matched`/`failed` outcome used at most `b` ticks. -/
+def Outcome.within (b : Nat) : Outcome → Prop
+  | .matched _ _ s _ => s ≤ b
+  | .failed _ s _ => s ≤ b
+  | .outOfFuel => False
+  | .error _ => True
+
+/-- The potential: ticks still needed from `ip` with stack `bts`. -/
+def potential (prog : Prog) (inp : Input) (fwd : Bool) (ip : Nat) (bts : Array BtInsn) : Nat :=
+  tickB prog.insns.size inp.bytes.size ip + costSum prog.insns.size inp.bytes.size fwd bts
+
+theorem run_terminates (prog : Prog) (hf : forwardProg prog = true) (inp : Input) (limit : Nat) :
+    ∀ (sf ip pos : Nat) (fwd : Bool) (st : State) (bts : Array BtInsn) (steps peak : Nat),
+      potential prog inp fwd ip bts ≤ sf →
+      steps + potential prog inp fwd ip bts ≤ limit →
+      (run prog inp limit sf ip pos fwd st bts steps peak).within
+        (steps + potential prog inp fwd ip bts) := by
+  intro sf
+  induction sf with
+  | zero =>
+    intro ip pos fwd st bts steps peak h1 _
+    have := tickB_pos prog.insns.size inp.bytes.size ip
+    unfold potential at h1; omega
+  | succ sf ih =>
+    intro ip pos fwd st bts steps peak h1 h2
+    unfold potential at h1 h2 ⊢
+    have hBip := tickB_pos prog.insns.size inp.bytes.size ip
+    simp only [run]
+    have hlim : ¬ steps ≥ limit := by omega
+    simp only [hlim, if_false]
+    generalize (if peak < bts.size then bts.size else peak) = peak1
+    -- the tail shared by every `tryBacktrack` site: `u` ticks used so far, `u ≤ B ip`
+    have hback : ∀ (st2 : State) (steps2 peak2 : Nat),
+        steps2 ≤ steps + tickB prog.insns.size inp.bytes.size ip →
+        (match tryBacktrack prog inp fwd st2 bts with
+          | .err e => Outcome.error e
+          | .exhausted st _ => .failed st steps2 peak2
+          | .resumed ip pos st bts => run prog inp limit sf ip pos fwd st bts steps2 peak2).within
+          (steps + (tickB prog.insns.size inp.bytes.size ip
+            + costSum prog.insns.size inp.bytes.size fwd bts)) := by
+      intro st2 steps2 peak2 hs2
+      cases hbt : tryBacktrack prog inp fwd st2 bts with
+      | err e => simp [Outcome.within]
+      | exhausted s b => simp only [Outcome.within]; omega
+      | resumed ip3 pos3 st3 bts3 =>
+        simp only []
+        have hc := (tryBacktrack_spec hbt).cost_le hf
+        have := ih ip3 pos3 fwd st3 bts3 steps2 peak2 (by unfold potential; omega)
+          (by unfold potential; omega)
+        unfold potential at this
+        revert this
+        cases run prog inp limit sf ip3 pos3 fwd st3 bts3 steps2 peak2 <;>
+          simp only [Outcome.within] <;> intro h <;> omega
+    cases hstep : step prog inp ip pos fwd st bts with
+    | err e => simp [Outcome.within]
+    | goal p s => simp only [Outcome.within]; omega
+    | cont ip2 pos2 st2 bts2 =>
+      simp only []
+      obtain ⟨hlt, hip, hc⟩ := step_cont_cost hf hstep
+      have hsucc := tickB_succ (L := inp.bytes.size) hlt
+      have hanti := tickB_anti prog.insns.size inp.bytes.size (show ip + 1 ≤ ip2 by omega)
+      have hB1 := tickB_pos prog.insns.size inp.bytes.size (ip + 1)
+      have e1 : (inp.bytes.size + 3) * tickB prog.insns.size inp.bytes.size (ip + 1)
+          = (inp.bytes.size + 1) * tickB prog.insns.size inp.bytes.size (ip + 1)
+            + 2 * tickB prog.insns.size inp.bytes.size (ip + 1) := by
+        rw [← Nat.add_mul]
+      have := ih ip2 pos2 fwd st2 bts2 (steps + 1) peak1 (by unfold potential; omega)
+        (by unfold potential; omega)
+      unfold potential at this
+      revert this
+      cases run prog inp limit sf ip2 pos2 fwd st2 bts2 (steps + 1) peak1 <;>
+        simp only [Outcome.within] <;> intro h <;> omega
+    | back st2 bts2 =>
+      simp only []
+      have := step_back_same hf hstep
+      subst this
+      exact hback st2 (steps + 1) peak1 (by omega)
+    | look dirFwd negate sg eg k =>
+      simp only []
+      obtain ⟨hlt, hk⟩ := step_look_fwd hf hstep
+      have hsucc := tickB_succ (L := inp.bytes.size) hlt
+      have hanti := tickB_anti prog.insns.size inp.bytes.size (show ip + 1 ≤ k by omega)
+      have hB1 := tickB_pos prog.insns.size inp.bytes.size (ip + 1)
+      have e1 : (inp.bytes.size + 3) * tickB prog.insns.size inp.bytes.size (ip + 1)
+          = inp.bytes.size * tickB prog.insns.size inp.bytes.size (ip + 1)
+            + 3 * tickB prog.insns.size inp.bytes.size (ip + 1) := by
+        rw [Nat.add_mul]
+      split
+      · simp [Outcome.within]
+      · have hc0 : costSum prog.insns.size inp.bytes.size dirFwd #[BtInsn.exhausted] = 0 := by
+          simp [costSum, cost]
+        have hn := ih (ip + 1) pos dirFwd st #[.exhausted] (steps + 1) peak1
+          (by unfold potential; omega) (by unfold potential; omega)
+        unfold potential at hn
+        rw [hc0] at hn
+        cases hr : run prog inp limit sf (ip + 1) pos dirFwd st #[.exhausted] (steps + 1) peak1 with
+        | outOfFuel => rw [hr] at hn; simp [Outcome.within] at hn
+        | error e => simp [Outcome.within]
+        | matched p2 st2 steps2 peak2 =>
+          rw [hr] at hn
+          simp only [Outcome.within] at hn
+          simp only []
+          split
+          · -- positive look-around matched: continue at `k`
+            have := ih k pos fwd st2 (pushSavedGroups (st.groups.extract sg eg).toList sg bts)
+              steps2 peak2
+              (by unfold potential; rw [costSum_pushSavedGroups]; omega)
+              (by unfold potential; rw [costSum_pushSavedGroups]; omega)
+            unfold potential at this
+            rw [costSum_pushSavedGroups] at this
+            revert this
+            cases run prog inp limit sf k pos fwd st2
+              (pushSavedGroups (st.groups.extract sg eg).toList sg bts) steps2 peak2 <;>
+              simp only [Outcome.within] <;> intro h <;> omega
+          · exact hback _ steps2 peak2 (by omega)
+        | failed st2 steps2 peak2 =>
+          rw [hr] at hn
+          simp only [Outcome.within] at hn
+          simp only []
+          split
+          · have := ih k pos fwd
+              { st2 with groups := spliceGroups (st.groups.extract sg eg).toList sg st2.groups }
+              bts steps2 peak2
+              (by unfold potential; omega) (by unfold potential; omega)
+            unfold potential at this
+            revert this
+            cases run prog inp limit sf k pos fwd
+              { st2 with groups := spliceGroups (st.groups.extract sg eg).toList sg st2.groups }
+              bts steps2 peak2 <;>
+              simp only [Outcome.within] <;> intro h <;> omega
+          · exact hback _ steps2 peak2 (by omega)
+
+theorem tryAtPos_terminates (prog : Prog) (hf : forwardProg prog = true) (inp : Input)
+    (fuel ip pos : Nat) (fwd : Bool) (st : State)
+    (h : tickB prog.insns.size inp.bytes.size ip ≤ fuel) :
+    (tryAtPos prog inp fuel ip pos fwd st).within (tickB prog.insns.size inp.bytes.size ip) := by
+  have hp : potential prog inp fwd ip #[.exhausted] = tickB prog.insns.size inp.bytes.size ip := by
+    simp [potential, costSum, cost]
+  have := run_terminates prog hf inp fuel fuel ip pos fwd st #[.exhausted] 0 0
+    (by rw [hp]; exact h) (by rw [hp]; omega)
+  rw [hp, Nat.zero_add] at this
+  exact this
+
+theorem Outcome.within_ne {b : Nat} {o : Outcome} (h : o.within b) : o ≠ .outOfFuel := by
+  intro hc; subst hc; exact h
+
+end Regress.VM.Bt
+
+namespace Regress.VM.Pk
+open Regress.VM.Bt (isLoopInsn)
+
+/-! ## (b) PikeVM: forward programs -/
+
+/-- Every `loop1` is followed by an instruction accepted as a single-char matcher (`wfProg` clause
+I9). Without it a `loop1` whose body does not consume input (`jump`, a group instruction, …) makes the
+PikeVM model spin forever: the state stays at the `loop1` with the same position. -/
+def loop1Scm (prog : Prog) : Bool :=
+  (List.range prog.insns.size).all (fun j =>
+    match prog.insns[j]? with
+    | some (.loop1 _ _ _) =>
+      (match prog.insns[j + 1]? with
+       | some b => scmAccepted b
+       | none => false)
+    | _ => true)
+
+theorem loop1Scm_body {prog : Prog} (h : loop1Scm prog = true) {j mn mx g}
+    (hin : prog.insns[j]? = some (.loop1 mn mx g)) :
+    ∃ b, prog.insns[j + 1]? = some b ∧ scmAccepted b = true := by
+  have hlt := lt_size_of_getElem? hin
+  unfold loop1Scm at h
+  rw [List.all_eq_true] at h
+  have := h j (List.mem_range.mpr hlt)
+  simp only [hin] at this
+  split at this
+  · exact ⟨_, ‹_›, this⟩
+  · simp at this
+
+/-- What a `loop1` body (an `scmAccepted` instruction) returns. -/
+inductive BodySpec (inp : Input) (fwd : Bool) (s : State) (steps peak : Nat) : SM → Prop
+  | err (e) : BodySpec inp fwd s steps peak (.err e)
+  | fail (s') : BodySpec inp fwd s steps peak (.fail s' steps peak)
+  | cont (s' : State) (h : MoveOk inp fwd s.pos s'.pos) : BodySpec inp fwd s steps peak (.cont s' steps peak)
+
+theorem nextElemArm_body (inp : Input) (fwd : Bool) (s : State) (f site steps peak) :
+    BodySpec inp fwd s steps peak (nextElemArm inp fwd s f site steps peak) := by
+  unfold nextElemArm
+  split
+  · exact .err _
+  · exact .fail _
+  · rename_i c p hn
+    split
+    · exact .err _
+    · unfold nextOrFail
+      split
+      · exact .cont _ (cursor_next_ok hn)
+      · exact .fail _
+
+theorem scmArm_body (inp : Input) (fwd : Bool) (s : State) (r site steps peak)
+    (h : ∀ p, r = .ok (some p) → MoveOk inp fwd s.pos p) :
+    BodySpec inp fwd s steps peak (scmArm r s site steps peak) := by
+  unfold scmArm
+  split
+  · exact .err _
+  · exact .fail _
+  · exact .cont _ (h _ rfl)
+
+theorem tryMatchState_body {prog : Prog} {inp : Input} {look : Runner} {d : Nat} {s : State}
+    {fwd : Bool} {steps peak : Nat} {b : Insn}
+    (hin : prog.insns[s.ip]? = some b) (hb : scmAccepted b = true) :
+    BodySpec inp fwd s steps peak (tryMatchState prog inp look (d + 1) s fwd steps peak) := by
+  unfold tryMatchState
+  simp only [hin]
+  cases b with
+  | char c => exact nextElemArm_body ..
+  | charSet v => exact nextElemArm_body ..
+  | matchAny => exact nextElemArm_body ..
+  | matchAnyExceptLineTerminator => exact nextElemArm_body ..
+  | bracket idx => exact nextElemArm_body ..
+  | byteSeq v =>
+    apply scmArm_body
+    intro p hp
+    simp only [Cursor.tryMatchLit, Except.ok.injEq] at hp
+    refine matchBytes_ok ?_ hp
+    intro hc; subst hc; simp [scmAccepted] at hb
+  | asciiBracket bm =>
+    apply scmArm_body
+    intro p hp
+    exact Scm.matches_ok rfl hp
+  | byteSet bs =>
+    apply scmArm_body
+    intro p hp
+    exact Scm.matches_ok rfl hp
+  | _ => simp [scmAccepted] at hb
+
+/-- Remaining input in direction `fwd` (at most `L`). -/
+def rem (L : Nat) (fwd : Bool) (pos : Nat) : Nat := if fwd then L - pos else min pos L
+
+theorem rem_le (L : Nat) (fwd : Bool) (pos : Nat) : rem L fwd pos ≤ L := by
+  unfold rem; split <;> omega
+
+theorem rem_lt_of_moveOk {inp : Input} {fwd : Bool} {pos p : Nat} (h : MoveOk inp fwd pos p) :
+    rem inp.bytes.size fwd p < rem inp.bytes.size fwd pos := by
+  unfold rem
+  cases fwd with
+  | true => have := h.1 rfl; simp only [if_true]; omega
+  | false => have := h.2 rfl; simp only [Bool.false_eq_true, if_false]; omega
+
+/-- Ticks a state on the stack can still cause. -/
+def cost (prog : Prog) (L : Nat) (fwd : Bool) (s : State) : Nat :=
+  match prog.insns[s.ip]? with
+  | some (.loop1 _ _ _) => (rem L fwd s.pos + 1) * (1 + tickB prog.insns.size L (s.ip + 2))
+  | _ => tickB prog.insns.size L s.ip
+
+theorem cost_loop1 {prog : Prog} {L : Nat} {fwd : Bool} {s : State} {mn mx g}
+    (hin : prog.insns[s.ip]? = some (.loop1 mn mx g)) :
+    cost prog L fwd s = (rem L fwd s.pos + 1) * (1 + tickB prog.insns.size L (s.ip + 2)) := by
+  simp [cost, hin]
+
+theorem cost_simple {prog : Prog} {L : Nat} {fwd : Bool} {s : State} {i : Insn}
+    (hin : prog.insns[s.ip]? = some i) (hi : isLookOrLoop1 i = false) :
+    cost prog L fwd s = tickB prog.insns.size L s.ip := by
+  unfold cost
+  rw [hin]
+  cases i <;> first | rfl | simp [isLookOrLoop1] at hi
+
+theorem cost_look {prog : Prog} {L : Nat} {fwd : Bool} {s : State} {i : Insn}
+    (hin : prog.insns[s.ip]? = some i) (hi : ∀ a b c, i ≠ .loop1 a b c) :
+    cost prog L fwd s = tickB prog.insns.size L s.ip := by
+  unfold cost
+  rw [hin]
+  cases i <;> first | rfl | exact absurd rfl (hi _ _ _)
+
+theorem tickB_succ2 {n L ip : Nat} (h : ip < n) :
+    tickB n L ip = (L + 3) * (L + 3) * tickB n L (ip + 2) := by
+  unfold tickB
+  have : n + 1 - ip = (n + 1 - (ip + 2)) + 2 := by omega
+  rw [this, Nat.pow_add]
+  rw [Nat.mul_comm]
+  congr 1
+  rw [Nat.pow_succ, Nat.pow_one]
+
+theorem cost_pos (prog : Prog) (L : Nat) (fwd : Bool) (s : State) : 1 ≤ cost prog L fwd s := by
+  unfold cost
+  split
+  · exact Nat.mul_pos (by omega) (by omega)
+  · exact tickB_pos _ _ _
+
+theorem cost_le_tickB (prog : Prog) (L : Nat) (fwd : Bool) (s : State) :
+    cost prog L fwd s ≤ tickB prog.insns.size L s.ip := by
+  unfold cost
+  split
+  · rename_i hin
+    have hlt := lt_size_of_getElem? hin
+    rw [tickB_succ2 hlt]
+    have hx := tickB_pos prog.insns.size L (s.ip + 2)
+    generalize tickB prog.insns.size L (s.ip + 2) = x at hx ⊢
+    have hr := rem_le L fwd s.pos
+    generalize rem L fwd s.pos = r at hr
+    calc (r + 1) * (1 + x) ≤ (L + 1) * (x + x) := Nat.mul_le_mul (by omega) (by omega)
+      _ = (2 * (L + 1)) * x := by rw [← Nat.two_mul, Nat.mul_left_comm, Nat.mul_assoc]
+      _ ≤ ((L + 3) * (L + 3)) * x :=
+          Nat.mul_le_mul_right _ (Nat.mul_le_mul (by omega) (by omega))
+  · exact Nat.le_refl _
+
+end Regress.VM.Pk
+
+namespace Regress.VM.Pk
+open Regress.VM.Bt (isLoopInsn loopInsn_not_fwd)
+
+/-- The outcome is not `.outOfFuel`, and a `matched`/`failed` outcome used at most `b` ticks. -/
+def Outcome.within (b : Nat) : Outcome → Prop
+  | .matched _ _ s _ => s ≤ b
+  | .failed s _ => s ≤ b
+  | .outOfFuel => False
+  | .error _ => True
+
+/-- One tick on a state of cost `c` (counter `steps` after the tick): the new states cost less, and
+the ticks used by a nested attempt are paid for. -/
+def SM.Ok (C : State → Nat) (steps c : Nat) : SM → Prop
+  | .fail _ st _ => st + 1 ≤ steps + c
+  | .complete _ st _ => st + 1 ≤ steps + c
+  | .cont s' st _ => C s' + 1 ≤ c ∧ st + C s' + 1 ≤ steps + c
+  | .split s1 s2 st _ => C s1 + C s2 + 1 ≤ c ∧ st + C s1 + C s2 + 1 ≤ steps + c
+  | .outOfFuel => False
+  | .err _ => True
+
+/-- What the termination argument needs from the nested-attempt runner. -/
+def Runner.Terminates (prog : Prog) (L : Nat) (sf limit : Nat) (look : Runner) : Prop :=
+  ∀ s0 dfwd st pk, cost prog L dfwd s0 + 1 ≤ sf → st + cost prog L dfwd s0 ≤ limit →
+    (look s0 dfwd st pk).within (st + cost prog L dfwd s0)
+
+section
+variable {prog : Prog} {inp : Input}
+
+theorem lookArm_ok {look : Runner} {sf limit : Nat}
+    (hl : look.Terminates prog inp.bytes.size sf limit) {s : State} {fwd : Bool} {steps peak : Nat}
+    (dirFwd negate : Bool) (k : Nat) (hlt : s.ip < prog.insns.size) (hk : s.ip < k)
+    (hc : cost prog inp.bytes.size fwd s = tickB prog.insns.size inp.bytes.size s.ip)
+    (hsf : cost prog inp.bytes.size fwd s ≤ sf)
+    (hlim : steps + cost prog inp.bytes.size fwd s ≤ limit + 1) :
+    (lookArm look dirFwd negate k s steps peak).Ok (cost prog inp.bytes.size fwd) steps
+      (cost prog inp.bytes.size fwd s) := by
+  rw [hc] at hsf hlim ⊢
+  have hsucc := tickB_succ (L := inp.bytes.size) hlt
+  have hanti := tickB_anti prog.insns.size inp.bytes.size (show s.ip + 1 ≤ k by omega)
+  have hB1 := tickB_pos prog.insns.size inp.bytes.size (s.ip + 1)
+  have e1 : (inp.bytes.size + 3) * tickB prog.insns.size inp.bytes.size (s.ip + 1)
+      = inp.bytes.size * tickB prog.insns.size inp.bytes.size (s.ip + 1)
+        + 3 * tickB prog.insns.size inp.bytes.size (s.ip + 1) := by rw [Nat.add_mul]
+  have hc1 := cost_le_tickB prog inp.bytes.size dirFwd { s with ip := s.ip + 1 }
+  simp only [] at hc1
+  have hn := hl { s with ip := s.ip + 1 } dirFwd steps peak (by omega) (by omega)
+  unfold lookArm
+  simp only []
+  cases hr : look { s with ip := s.ip + 1 } dirFwd steps peak with
+  | error e => simp [SM.Ok]
+  | outOfFuel => rw [hr] at hn; exact hn
+  | matched p s' st2 pk2 =>
+    rw [hr] at hn; simp only [Outcome.within] at hn
+    simp only []
+    split
+    · have hck := cost_le_tickB prog inp.bytes.size fwd { s' with ip := k, pos := s.pos }
+      simp only [] at hck
+      simp only [SM.Ok]; omega
+    · simp only [SM.Ok]; omega
+  | failed st2 pk2 =>
+    rw [hr] at hn; simp only [Outcome.within] at hn
+    simp only []
+    split
+    · have hck := cost_le_tickB prog inp.bytes.size fwd
+        { s with ip := k, pos := s.pos }
+      simp only [] at hck
+      simp only [SM.Ok]; omega
+    · simp only [SM.Ok]; omega
+
+theorem simple_ok (hf : forwardProg prog = true) {s : State} {fwd : Bool} {steps peak : Nat}
+    {i : Insn} (hin : prog.insns[s.ip]? = some i) (hi : isLookOrLoop1 i = false) {sm : SM}
+    (hs : SimpleSpec prog s steps peak sm) :
+    sm.Ok (cost prog inp.bytes.size fwd) steps (cost prog inp.bytes.size fwd s) := by
+  rw [cost_simple hin hi]
+  have hlt := lt_size_of_getElem? hin
+  have hsucc := tickB_succ (L := inp.bytes.size) hlt
+  have hB1 := tickB_pos prog.insns.size inp.bytes.size (s.ip + 1)
+  have e1 : (inp.bytes.size + 3) * tickB prog.insns.size inp.bytes.size (s.ip + 1)
+      = inp.bytes.size * tickB prog.insns.size inp.bytes.size (s.ip + 1)
+        + 3 * tickB prog.insns.size inp.bytes.size (s.ip + 1) := by rw [Nat.add_mul]
+  cases hs with
+  | err => simp [SM.Ok]
+  | fail => simp only [SM.Ok]; omega
+  | complete => simp only [SM.Ok]; omega
+  | next _ s' hip =>
+    have := cost_le_tickB prog inp.bytes.size fwd s'
+    rw [hip] at this
+    simp only [SM.Ok]; omega
+  | jump t hj s' hip =>
+    have hfw := forwardProg_insn hf hj
+    simp only [fwdInsn, decide_eq_true_eq] at hfw
+    have := cost_le_tickB prog inp.bytes.size fwd s'
+    rw [hip] at this
+    have hanti := tickB_anti prog.insns.size inp.bytes.size (show s.ip + 1 ≤ t by omega)
+    simp only [SM.Ok]; omega
+  | alt sec ha s1 s2 h1 h2 =>
+    have hfw := forwardProg_insn hf ha
+    simp only [fwdInsn, decide_eq_true_eq] at hfw
+    have c1 := cost_le_tickB prog inp.bytes.size fwd s1
+    have c2 := cost_le_tickB prog inp.bytes.size fwd s2
+    rw [h1] at c1; rw [h2] at c2
+    have hanti := tickB_anti prog.insns.size inp.bytes.size (show s.ip + 1 ≤ sec by omega)
+    simp only [SM.Ok]; omega
+  | loopI i' hl hli =>
+    have := forwardProg_insn hf hl
+    rw [loopInsn_not_fwd hli] at this
+    simp at this
+
+/-- The tail of the `Loop1CharBody` arm, given what the body did. -/
+theorem loop1_tail_ok {s : State} {fwd : Bool} {mn : Nat} {mx : Option Nat} {g : Bool}
+    (hin : prog.insns[s.ip]? = some (.loop1 mn mx g))
+    (tp : Option Nat) (s2 : State) (steps peak : Nat) (hip : s2.ip = s.ip)
+    (htp : ∀ p, tp = some p → MoveOk inp fwd s.pos p) :
+    (match tp, decide (s.loop1Iters ≥ mn) with
+      | none, false => SM.fail s2 steps peak
+      | none, true => .cont { s2 with ip := s.ip + 2, loop1Iters := 0 } steps peak
+      | some tp, false => .cont { s2 with pos := tp, loop1Iters := s.loop1Iters + 1 } steps peak
+      | some tp, true =>
+        if g then
+          .split { s2 with ip := s.ip + 2, loop1Iters := 0 }
+            { s2 with pos := tp, loop1Iters := s.loop1Iters + 1 } steps peak
+        else
+          .split { s2 with pos := tp, loop1Iters := s.loop1Iters + 1 }
+            { s2 with ip := s.ip + 2, loop1Iters := 0 } steps peak).Ok
+      (cost prog inp.bytes.size fwd) steps (cost prog inp.bytes.size fwd s) := by
+  rw [cost_loop1 hin]
+  have hx := tickB_pos prog.insns.size inp.bytes.size (s.ip + 2)
+  -- cost of the exit state
+  have hexit : ∀ (q : Nat) (it : Nat), cost prog inp.bytes.size fwd
+      { s2 with pos := q, ip := s.ip + 2, loop1Iters := it }
+        ≤ tickB prog.insns.size inp.bytes.size (s.ip + 2) := fun q it => cost_le_tickB _ _ _ _
+  -- cost of the state that stays at the loop with position `p`
+  have hstay : ∀ (p : Nat) (it : Nat), MoveOk inp fwd s.pos p →
+      cost prog inp.bytes.size fwd { s2 with pos := p, loop1Iters := it }
+        + (1 + tickB prog.insns.size inp.bytes.size (s.ip + 2))
+        ≤ (rem inp.bytes.size fwd s.pos + 1) * (1 + tickB prog.insns.size inp.bytes.size (s.ip + 2)) := by
+    intro p it hmv
+    have hin' : prog.insns[({ s2 with pos := p, loop1Iters := it } : State).ip]?
+        = some (.loop1 mn mx g) := by simp only [hip]; exact hin
+    rw [cost_loop1 hin']
+    simp only [hip]
+    have hlt := rem_lt_of_moveOk hmv
+    have := Nat.mul_le_mul_right (1 + tickB prog.insns.size inp.bytes.size (s.ip + 2))
+      (show rem inp.bytes.size fwd p + 1 + 1 ≤ rem inp.bytes.size fwd s.pos + 1 by omega)
+    rw [Nat.add_mul _ 1, Nat.one_mul] at this
+    exact this
+  have hone : 1 * (1 + tickB prog.insns.size inp.bytes.size (s.ip + 2))
+      ≤ (rem inp.bytes.size fwd s.pos + 1) * (1 + tickB prog.insns.size inp.bytes.size (s.ip + 2)) :=
+    Nat.mul_le_mul_right _ (by omega)
+  rw [Nat.one_mul] at hone
+  cases tp with
+  | none =>
+    cases decide (s.loop1Iters ≥ mn) with
+    | false => simp only [SM.Ok]; omega
+    | true =>
+      have := hexit s2.pos 0
+      simp only [SM.Ok]; omega
+  | some p =>
+    have hmv := htp p rfl
+    cases decide (s.loop1Iters ≥ mn) with
+    | false =>
+      have := hstay p (s.loop1Iters + 1) hmv
+      simp only [SM.Ok]; omega
+    | true =>
+      have h1 := hstay p (s.loop1Iters + 1) hmv
+      have h2 := hexit s2.pos 0
+      cases g <;> simp only [SM.Ok, if_true, Bool.false_eq_true, if_false] <;> omega
+
+theorem tryMatchState_ok (hf : forwardProg prog = true) (hl1 : loop1Scm prog = true)
+    {look : Runner} {sf limit : Nat} (hl : look.Terminates prog inp.bytes.size sf limit)
+    (d : Nat) (s : State) (fwd : Bool) (steps peak : Nat)
+    (hsf : cost prog inp.bytes.size fwd s ≤ sf)
+    (hlim : steps + cost prog inp.bytes.size fwd s ≤ limit + 1) :
+    (tryMatchState prog inp look d s fwd steps peak).Ok (cost prog inp.bytes.size fwd) steps
+      (cost prog inp.bytes.size fwd s) := by
+  cases d with
+  | zero => simp [tryMatchState, SM.Ok]
+  | succ d =>
+    cases hin : prog.insns[s.ip]? with
+    | none => simp [tryMatchState, hin, SM.Ok]
+    | some i =>
+      by_cases hi : isLookOrLoop1 i = false
+      · exact simple_ok hf hin hi (tryMatchState_simple hin hi)
+      · have hlt := lt_size_of_getElem? hin
+        cases i with
+        | lookahead n sg eg k =>
+          have hfw := forwardProg_insn hf hin
+          simp only [fwdInsn, decide_eq_true_eq] at hfw
+          have hc := cost_look (L := inp.bytes.size) (fwd := fwd) hin (by intro a b c h; cases h)
+          unfold tryMatchState; simp only [hin]
+          exact lookArm_ok hl true n k hlt hfw hc hsf hlim
+        | lookbehind n sg eg k =>
+          have hfw := forwardProg_insn hf hin
+          simp only [fwdInsn, decide_eq_true_eq] at hfw
+          have hc := cost_look (L := inp.bytes.size) (fwd := fwd) hin (by intro a b c h; cases h)
+          unfold tryMatchState; simp only [hin]
+          exact lookArm_ok hl false n k hlt hfw hc hsf hlim
+        | loop1 mn mx g =>
+          obtain ⟨b, hbin, hb⟩ := loop1Scm_body hl1 hin
+          unfold tryMatchState; simp only [hin]
+          by_cases hlt' : Bt.ltMax s.loop1Iters mx = true
+          · simp only [hlt', if_true]
+            cases d with
+            | zero => simp [tryMatchState, SM.Ok]
+            | succ d =>
+              have hbody := tryMatchState_body (inp := inp) (look := look) (d := d)
+                (s := { s with ip := s.ip + 1 }) (fwd := fwd) (steps := steps) (peak := peak)
+                hbin hb
+              generalize tryMatchState prog inp look (d + 1) { s with ip := s.ip + 1 } fwd steps peak
+                = r at hbody
+              cases hbody with
+              | err e => simp [SM.Ok]
+              | fail s' =>
+                simp only []
+                exact loop1_tail_ok hin none _ steps peak rfl (by intro p hp; cases hp)
+              | cont s' hmv =>
+                simp only []
+                exact loop1_tail_ok hin (some s'.pos) _ steps peak rfl
+                  (by intro p hp; cases hp; exact hmv)
+          · simp only [hlt']
+            exact loop1_tail_ok hin none s steps peak rfl (by intro p hp; cases hp)
+        | _ => simp [isLookOrLoop1] at hi
+
+end
+
+/-- The potential of a state stack. -/
+def costSum (prog : Prog) (L : Nat) (fwd : Bool) (states : Array State) : Nat :=
+  (states.toList.map (cost prog L fwd)).sum
+
+theorem costSum_push (prog : Prog) (L : Nat) (fwd : Bool) (states : Array State) (s : State) :
+    costSum prog L fwd (states.push s) = costSum prog L fwd states + cost prog L fwd s := by
+  simp [costSum, List.sum_append]
+
+theorem Outcome.within_mono {a b : Nat} (h : a ≤ b) {o : Outcome} (ho : o.within a) : o.within b := by
+  cases o <;> simp only [Outcome.within] at ho ⊢ <;> omega
+
+theorem runStates_terminates (prog : Prog) (hf : forwardProg prog = true)
+    (hl1 : loop1Scm prog = true) (inp : Input) (limit : Nat) :
+    ∀ (sf : Nat) (states : Array State) (fwd : Bool) (steps peak : Nat),
+      costSum prog inp.bytes.size fwd states + 1 ≤ sf →
+      steps + costSum prog inp.bytes.size fwd states ≤ limit →
+      (runStates prog inp limit sf states fwd steps peak).within
+        (steps + costSum prog inp.bytes.size fwd states) := by
+  intro sf
+  induction sf with
+  | zero => intro states fwd steps peak h1 _; omega
+  | succ sf ih =>
+    intro states fwd steps peak h1 h2
+    simp only [runStates]
+    cases hb : states.back? with
+    | none => simp only [Outcome.within]; omega
+    | some s =>
+      obtain ⟨rest, rfl⟩ := Array.back?_eq_some_iff.mp hb
+      rw [costSum_push] at h1 h2 ⊢
+      have hc := cost_pos prog inp.bytes.size fwd s
+      simp only []
+      have hlim : ¬ steps ≥ limit := by omega
+      simp only [hlim, if_false]
+      generalize (if peak < (rest.push s).size then (rest.push s).size else peak) = peak1
+      have hl : Runner.Terminates prog inp.bytes.size sf limit
+          (fun s0 dirFwd steps peak => runStates prog inp limit sf #[s0] dirFwd steps peak) := by
+        intro s0 dfwd st pk hh1 hh2
+        have e : costSum prog inp.bytes.size dfwd #[s0] = cost prog inp.bytes.size dfwd s0 := by
+          simp [costSum]
+        have := ih #[s0] dfwd st pk (by rw [e]; exact hh1) (by rw [e]; exact hh2)
+        rw [e] at this
+        exact this
+      have hok := tryMatchState_ok hf hl1 hl (prog.insns.size + 1) s fwd (steps + 1) peak1
+        (by omega) (by omega)
+      cases hr : tryMatchState prog inp
+          (fun s0 dirFwd steps peak => runStates prog inp limit sf #[s0] dirFwd steps peak)
+          (prog.insns.size + 1) s fwd (steps + 1) peak1 with
+      | err e => simp [Outcome.within]
+      | outOfFuel => rw [hr] at hok; exact hok
+      | complete s2 st2 pk2 =>
+        rw [hr] at hok; simp only [SM.Ok] at hok
+        simp only [Outcome.within]; omega
+      | fail s2 st2 pk2 =>
+        rw [hr] at hok; simp only [SM.Ok] at hok
+        simp only [Array.pop_push]
+        exact Outcome.within_mono (by omega) (ih rest fwd st2 pk2 (by omega) (by omega))
+      | cont s2 st2 pk2 =>
+        rw [hr] at hok; simp only [SM.Ok] at hok
+        simp only [setIfInBounds_push_last]
+        have := ih (rest.push s2) fwd st2 pk2 (by rw [costSum_push]; omega)
+          (by rw [costSum_push]; omega)
+        rw [costSum_push] at this
+        exact Outcome.within_mono (by omega) this
+      | split s2 new st2 pk2 =>
+        rw [hr] at hok; simp only [SM.Ok] at hok
+        simp only [setIfInBounds_push_last]
+        have := ih ((rest.push s2).push new) fwd st2 pk2
+          (by rw [costSum_push, costSum_push]; omega) (by rw [costSum_push, costSum_push]; omega)
+        rw [costSum_push, costSum_push] at this
+        exact Outcome.within_mono (by omega) this
+
+theorem tryAtPos_terminates (prog : Prog) (hf : forwardProg prog = true)
+    (hl1 : loop1Scm prog = true) (inp : Input) (fuel : Nat) (init : State) (fwd : Bool)
+    (h : tickB prog.insns.size inp.bytes.size init.ip + 1 ≤ fuel) :
+    (tryAtPos prog inp fuel init fwd).within (tickB prog.insns.size inp.bytes.size init.ip) := by
+  have e : costSum prog inp.bytes.size fwd #[init] = cost prog inp.bytes.size fwd init := by
+    simp [costSum]
+  have hc := cost_le_tickB prog inp.bytes.size fwd init
+  have := runStates_terminates prog hf hl1 inp fuel fuel #[init] fwd 0 0
+    (by rw [e]; omega) (by rw [e]; omega)
+  rw [e] at this
+  exact Outcome.within_mono (by omega) this
+
+theorem Outcome.within_ne {b : Nat} {o : Outcome} (h : o.within b) : o ≠ .outOfFuel := by
+  intro hc; subst hc; exact h
+
+end Regress.VM.Pk
